@@ -181,7 +181,15 @@ def «MultiMetrics.gauges» : Nat := 169
 def «MultiMetrics.updowns» : Nat := 170
 def «MultiMetrics.stores» : Nat := 171
 def «MultiMetrics.metricTypes» : Nat := 172
-def «environmentCache.addItem()» : Nat := 173
+def «SamplerFactory.Config» : Nat := 173
+def «SamplerFactory.Logger» : Nat := 174
+def «SamplerFactory.Metrics» : Nat := 175
+def «SamplerFactory.Peers» : Nat := 176
+def «SamplerFactory.peerCount» : Nat := 177
+def «SamplerFactory.mutex» : Nat := 178
+def «SamplerFactory.sharedDynsamplers» : Nat := 179
+def «SamplerFactory.goalThroughputConfigs» : Nat := 180
+def «environmentCache.addItem()» : Nat := 181
 end L
 
 /-! Functions and function literals (`Outer$n`) of the analysed packages. -/
@@ -244,558 +252,614 @@ def «DefaultTrue.MarshalText» : Nat := 54
 def «DefaultTrue.UnmarshalText» : Nat := 55
 def «Deprecation.GetDeprecationText» : Nat := 56
 def «Deprecation.GetLastVersion» : Nat := 57
-def «DeterministicSamplerConfig.GetSamplingFields» : Nat := 58
-def «DirectTransmission.EnqueueEvent» : Nat := 59
-def «DirectTransmission.EnqueueEvent$1» : Nat := 60
-def «DirectTransmission.EnqueueSpan» : Nat := 61
-def «DirectTransmission.Start» : Nat := 62
-def «DirectTransmission.Stop» : Nat := 63
-def «DirectTransmission.Stop$1» : Nat := 64
-def «DirectTransmission.dispatchStaleBatches» : Nat := 65
-def «DirectTransmission.dispatchStaleBatches$1» : Nat := 66
-def «DirectTransmission.handleBatchFailure» : Nat := 67
-def «DirectTransmission.handleError» : Nat := 68
-def «DirectTransmission.handleEventError» : Nat := 69
-def «DirectTransmission.registerMetrics» : Nat := 70
-def «DirectTransmission.sendBatch» : Nat := 71
-def «Duration.MarshalText» : Nat := 72
-def «Duration.UnmarshalText» : Nat := 73
-def «DynamicSamplerConfig.GetSamplingFields» : Nat := 74
-def «EMADynamicSamplerConfig.GetSamplingFields» : Nat := 75
-def «EMAThroughputSamplerConfig.GetSamplingFields» : Nat := 76
-def «FileConfigError.Error» : Nat := 77
-def «FileConfigError.HasErrors» : Nat := 78
-def «FilePeers.GetInstanceID» : Nat := 79
-def «FilePeers.GetPeers» : Nat := 80
-def «FilePeers.Ready» : Nat := 81
-def «FilePeers.RegisterUpdatedPeersCallback» : Nat := 82
-def «FilePeers.Start» : Nat := 83
-def «FilePeers.Start$1» : Nat := 84
-def «GetCollectorImplementation» : Nat := 85
-def «GetKeyFields» : Nat := 86
-def «GetMetricsImplementation» : Nat := 87
-def «Group.GetDeprecationVersion» : Nat := 88
-def «Group.IsDeprecated» : Nat := 89
-def «HoneycombLoggerConfig.GetSamplerEnabled» : Nat := 90
-def «InMemCollector.AddSpan» : Nat := 91
-def «InMemCollector.AddSpanFromPeer» : Nat := 92
-def «InMemCollector.GetStressedSampleRate» : Nat := 93
-def «InMemCollector.IsMyTrace» : Nat := 94
-def «InMemCollector.ProcessSpanImmediately» : Nat := 95
-def «InMemCollector.Start» : Nat := 96
-def «InMemCollector.Start$1» : Nat := 97
-def «InMemCollector.Stop» : Nat := 98
-def «InMemCollector.Stressed» : Nat := 99
-def «InMemCollector.addAdditionalAttributes» : Nat := 100
-def «InMemCollector.checkAlloc» : Nat := 101
-def «InMemCollector.dealWithSentTrace» : Nat := 102
-def «InMemCollector.getWorkerIDForTrace» : Nat := 103
-def «InMemCollector.isReady» : Nat := 104
-def «InMemCollector.monitor» : Nat := 105
-def «InMemCollector.reloadConfigs» : Nat := 106
-def «InMemCollector.send» : Nat := 107
-def «InMemCollector.sendReloadSignal» : Nat := 108
-def «InMemCollector.sendTraces» : Nat := 109
-def «IsLegacyAPIKey» : Nat := 110
-def «KeptReasonsCache.Get» : Nat := 111
-def «KeptReasonsCache.Set» : Nat := 112
-def «Level.MarshalText» : Nat := 113
-def «Level.String» : Nat := 114
-def «Level.UnmarshalText» : Nat := 115
-def «LoadConfigMetadata» : Nat := 116
-def «LoadRulesMetadata» : Nat := 117
-def «LogsServer.Export» : Nat := 118
-def «MemorySize.MarshalText» : Nat := 119
-def «MemorySize.UnmarshalFlag» : Nat := 120
-def «MemorySize.UnmarshalText» : Nat := 121
-def «Metadata.ClosestNamesTo» : Nat := 122
-def «Metadata.ClosestNamesTo$1» : Nat := 123
-def «Metadata.GetField» : Nat := 124
-def «Metadata.GetGroup» : Nat := 125
-def «Metadata.LoadFrom» : Nat := 126
-def «Metadata.Validate» : Nat := 127
-def «Metadata.ValidateRules» : Nat := 128
-def «MetricType.String» : Nat := 129
-def «MockCollector.AddSpan» : Nat := 130
-def «MockCollector.AddSpanFromPeer» : Nat := 131
-def «MockCollector.Flush» : Nat := 132
-def «MockCollector.GetStressedSampleRate» : Nat := 133
-def «MockCollector.ProcessSpanImmediately» : Nat := 134
-def «MockCollector.Stressed» : Nat := 135
-def «MockConfig.DetermineSamplerKey» : Nat := 136
-def «MockConfig.GetAccessKeyConfig» : Nat := 137
-def «MockConfig.GetAddCountsToRoot» : Nat := 138
-def «MockConfig.GetAddHostMetadataToTrace» : Nat := 139
-def «MockConfig.GetAddRuleReasonToTrace» : Nat := 140
-def «MockConfig.GetAddSpanCountToRoot» : Nat := 141
-def «MockConfig.GetAdditionalAttributes» : Nat := 142
-def «MockConfig.GetAdditionalErrorFields» : Nat := 143
-def «MockConfig.GetAdditionalHeaders» : Nat := 144
-def «MockConfig.GetAllSamplerRules» : Nat := 145
-def «MockConfig.GetCollectionConfig» : Nat := 146
-def «MockConfig.GetCollectorType» : Nat := 147
-def «MockConfig.GetCompressPeerCommunication» : Nat := 148
-def «MockConfig.GetConfigMetadata» : Nat := 149
-def «MockConfig.GetDatasetPrefix» : Nat := 150
-def «MockConfig.GetDebugServiceAddr» : Nat := 151
-def «MockConfig.GetEnvironmentCacheTTL» : Nat := 152
-def «MockConfig.GetGRPCConfig» : Nat := 153
-def «MockConfig.GetGRPCEnabled» : Nat := 154
-def «MockConfig.GetGRPCListenAddr» : Nat := 155
-def «MockConfig.GetGeneralConfig» : Nat := 156
-def «MockConfig.GetHTTPIdleTimeout» : Nat := 157
-def «MockConfig.GetHashes» : Nat := 158
-def «MockConfig.GetHealthCheckTimeout» : Nat := 159
-def «MockConfig.GetHoneycombAPI» : Nat := 160
-def «MockConfig.GetHoneycombLoggerConfig» : Nat := 161
-def «MockConfig.GetIdentifierInterfaceName» : Nat := 162
-def «MockConfig.GetIsDryRun» : Nat := 163
-def «MockConfig.GetListenAddr» : Nat := 164
-def «MockConfig.GetLoggerLevel» : Nat := 165
-def «MockConfig.GetLoggerType» : Nat := 166
-def «MockConfig.GetOTelMetricsConfig» : Nat := 167
-def «MockConfig.GetOTelTracingConfig» : Nat := 168
-def «MockConfig.GetOpAMPConfig» : Nat := 169
-def «MockConfig.GetParentIdFieldNames» : Nat := 170
-def «MockConfig.GetPeerListenAddr» : Nat := 171
-def «MockConfig.GetPeerManagementType» : Nat := 172
-def «MockConfig.GetPeerTimeout» : Nat := 173
-def «MockConfig.GetPeers» : Nat := 174
-def «MockConfig.GetPrometheusMetricsConfig» : Nat := 175
-def «MockConfig.GetQueryAuthToken» : Nat := 176
-def «MockConfig.GetRedisIdentifier» : Nat := 177
-def «MockConfig.GetRedisPeerManagement» : Nat := 178
-def «MockConfig.GetSampleCacheConfig» : Nat := 179
-def «MockConfig.GetSamplerConfigForDestName» : Nat := 180
-def «MockConfig.GetSamplingKeyFieldsForDestName» : Nat := 181
-def «MockConfig.GetStdoutLoggerConfig» : Nat := 182
-def «MockConfig.GetStressReliefConfig» : Nat := 183
-def «MockConfig.GetTraceIdFieldNames» : Nat := 184
-def «MockConfig.GetTracesConfig» : Nat := 185
-def «MockConfig.GetUseIPV6Identifier» : Nat := 186
-def «MockConfig.RegisterReloadCallback» : Nat := 187
-def «MockConfig.Reload» : Nat := 188
-def «MockConfig.SetMaxAlloc» : Nat := 189
-def «MockGRPCHealthWatchServer.GetSentMessages» : Nat := 190
-def «MockGRPCHealthWatchServer.Send» : Nat := 191
-def «MockMetrics.Count» : Nat := 192
-def «MockMetrics.Down» : Nat := 193
-def «MockMetrics.Gauge» : Nat := 194
-def «MockMetrics.Get» : Nat := 195
-def «MockMetrics.GetHistogramCount» : Nat := 196
-def «MockMetrics.Histogram» : Nat := 197
-def «MockMetrics.Increment» : Nat := 198
-def «MockMetrics.Register» : Nat := 199
-def «MockMetrics.Start» : Nat := 200
-def «MockMetrics.Stop» : Nat := 201
-def «MockMetrics.Store» : Nat := 202
-def «MockMetrics.Up» : Nat := 203
-def «MockPeers.GetInstanceID» : Nat := 204
-def «MockPeers.GetPeers» : Nat := 205
-def «MockPeers.Ready» : Nat := 206
-def «MockPeers.RegisterUpdatedPeersCallback» : Nat := 207
-def «MockPeers.Start» : Nat := 208
-def «MockPeers.UpdatePeers» : Nat := 209
-def «MockStressReliever.GetSampleRate» : Nat := 210
-def «MockStressReliever.Recalc» : Nat := 211
-def «MockStressReliever.ShouldSampleDeterministically» : Nat := 212
-def «MockStressReliever.Start» : Nat := 213
-def «MockStressReliever.Stressed» : Nat := 214
-def «MockStressReliever.UpdateFromConfig» : Nat := 215
-def «MockTransmission.EnqueueEvent» : Nat := 216
-def «MockTransmission.EnqueueSpan» : Nat := 217
-def «MockTransmission.GetBlock» : Nat := 218
-def «MockTransmission.RegisterMetrics» : Nat := 219
-def «MockTransmission.Start» : Nat := 220
-def «MockTransmission.Stop» : Nat := 221
-def «MultiMetrics.AddChild» : Nat := 222
-def «MultiMetrics.Children» : Nat := 223
-def «MultiMetrics.Count» : Nat := 224
-def «MultiMetrics.Down» : Nat := 225
-def «MultiMetrics.Gauge» : Nat := 226
-def «MultiMetrics.Get» : Nat := 227
-def «MultiMetrics.Histogram» : Nat := 228
-def «MultiMetrics.Increment» : Nat := 229
-def «MultiMetrics.Register» : Nat := 230
-def «MultiMetrics.Start» : Nat := 231
-def «MultiMetrics.Store» : Nat := 232
-def «MultiMetrics.Up» : Nat := 233
-def «NewCmdEnvOptions» : Nat := 234
-def «NewCollectorWorker» : Nat := 235
-def «NewConfig» : Nat := 236
-def «NewConfigData» : Nat := 237
-def «NewCuckooSentCache» : Nat := 238
-def «NewCuckooTraceChecker» : Nat := 239
-def «NewCuckooTraceChecker$1» : Nat := 240
-def «NewDefaultTransmission» : Nat := 241
-def «NewDirectTransmission» : Nat := 242
-def «NewInMemCache» : Nat := 243
-def «NewInMemCache$1» : Nat := 244
-def «NewInMemCache$2» : Nat := 245
-def «NewKeptReasonsCache» : Nat := 246
-def «NewKeptTraceCacheEntry» : Nat := 247
-def «NewLogsServer» : Nat := 248
-def «NewMockCollector» : Nat := 249
-def «NewMockPeers» : Nat := 250
-def «NewMultiMetrics» : Nat := 251
-def «NewTraceServer» : Nat := 252
-def «NullMetrics.Count» : Nat := 253
-def «NullMetrics.Down» : Nat := 254
-def «NullMetrics.Gauge» : Nat := 255
-def «NullMetrics.Get» : Nat := 256
-def «NullMetrics.Histogram» : Nat := 257
-def «NullMetrics.Increment» : Nat := 258
-def «NullMetrics.Register» : Nat := 259
-def «NullMetrics.Start» : Nat := 260
-def «NullMetrics.Stop» : Nat := 261
-def «NullMetrics.Store» : Nat := 262
-def «NullMetrics.Up» : Nat := 263
-def «OTelMetrics.Count» : Nat := 264
-def «OTelMetrics.Down» : Nat := 265
-def «OTelMetrics.Gauge» : Nat := 266
-def «OTelMetrics.Histogram» : Nat := 267
-def «OTelMetrics.Increment» : Nat := 268
-def «OTelMetrics.Register» : Nat := 269
-def «OTelMetrics.Start» : Nat := 270
-def «OTelMetrics.Start$1» : Nat := 271
-def «OTelMetrics.Start$2» : Nat := 272
-def «OTelMetrics.Start$3» : Nat := 273
-def «OTelMetrics.Start$4» : Nat := 274
-def «OTelMetrics.Stop» : Nat := 275
-def «OTelMetrics.Up» : Nat := 276
-def «OTelMetrics.getOrInitCounter» : Nat := 277
-def «OTelMetrics.getOrInitGauge» : Nat := 278
-def «OTelMetrics.getOrInitHistogram» : Nat := 279
-def «OTelMetrics.getOrInitUpDown» : Nat := 280
-def «ParseLevel» : Nat := 281
-def «PrefixMetricName» : Nat := 282
-def «PromMetrics.Count» : Nat := 283
-def «PromMetrics.Down» : Nat := 284
-def «PromMetrics.Gauge» : Nat := 285
-def «PromMetrics.Histogram» : Nat := 286
-def «PromMetrics.Increment» : Nat := 287
-def «PromMetrics.Register» : Nat := 288
-def «PromMetrics.Start» : Nat := 289
-def «PromMetrics.Start$1» : Nat := 290
-def «PromMetrics.Up» : Nat := 291
-def «RedisPubsubPeers.GetInstanceID» : Nat := 292
-def «RedisPubsubPeers.GetPeers» : Nat := 293
-def «RedisPubsubPeers.Ready» : Nat := 294
-def «RedisPubsubPeers.Ready$1» : Nat := 295
-def «RedisPubsubPeers.RegisterUpdatedPeersCallback» : Nat := 296
-def «RedisPubsubPeers.Start» : Nat := 297
-def «RedisPubsubPeers.checkHash» : Nat := 298
-def «RedisPubsubPeers.listen» : Nat := 299
-def «RedisPubsubPeers.stop» : Nat := 300
-def «Router.AddOTLPMuxxer» : Nat := 301
-def «Router.Check» : Nat := 302
-def «Router.LnS» : Nat := 303
-def «Router.LnS$1» : Nat := 304
-def «Router.SetEnvironmentCache» : Nat := 305
-def «Router.SetEnvironmentCache$1» : Nat := 306
-def «Router.SetType» : Nat := 307
-def «Router.SetVersion» : Nat := 308
-def «Router.Stop» : Nat := 309
-def «Router.Watch» : Nat := 310
-def «Router.alive» : Nat := 311
-def «Router.apiKeyProcessor» : Nat := 312
-def «Router.apiKeyProcessor$1» : Nat := 313
-def «Router.batch» : Nat := 314
-def «Router.debugTrace» : Nat := 315
-def «Router.event» : Nat := 316
-def «Router.getAllSamplerRules» : Nat := 317
-def «Router.getConfigMetadata» : Nat := 318
-def «Router.getEnvironmentName» : Nat := 319
-def «Router.getKeyID» : Nat := 320
-def «Router.getSamplerRules» : Nat := 321
-def «Router.handleOTLPFailureResponse» : Nat := 322
-def «Router.handlerReturnWithError» : Nat := 323
-def «Router.lookupEnvironment» : Nat := 324
-def «Router.marshalToFormat» : Nat := 325
-def «Router.panic» : Nat := 326
-def «Router.panicCatcher» : Nat := 327
-def «Router.panicCatcher$1» : Nat := 328
-def «Router.panicCatcher$2» : Nat := 329
-def «Router.postOTLPLogs» : Nat := 330
-def «Router.postOTLPTrace» : Nat := 331
-def «Router.processEvent» : Nat := 332
-def «Router.processOTLPRequest» : Nat := 333
-def «Router.processOTLPRequestBatchMsgp» : Nat := 334
-def «Router.processOTLPRequestWithMsgp» : Nat := 335
-def «Router.proxy» : Nat := 336
-def «Router.queryTokenChecker» : Nat := 337
-def «Router.queryTokenChecker$1» : Nat := 338
-def «Router.readAndCloseMaybeCompressedBody» : Nat := 339
-def «Router.readBodyToBuffer» : Nat := 340
-def «Router.readGzipBody» : Nat := 341
-def «Router.readUncompressedBody» : Nat := 342
-def «Router.readZstdBody» : Nat := 343
-def «Router.ready» : Nat := 344
-def «Router.registerMetricNames» : Nat := 345
-def «Router.requestLogger» : Nat := 346
-def «Router.requestLogger$1» : Nat := 347
-def «Router.requestToEvent» : Nat := 348
-def «Router.setResponseHeaders» : Nat := 349
-def «Router.setResponseHeaders$1» : Nat := 350
-def «Router.startGRPCHealthMonitor» : Nat := 351
-def «Router.startGRPCHealthMonitor$1» : Nat := 352
-def «Router.startGRPCHealthMonitor$2» : Nat := 353
-def «Router.version» : Nat := 354
-def «RulesBasedDownstreamSampler.GetSamplingFields» : Nat := 355
-def «RulesBasedDownstreamSampler.NameMeaningfulRate» : Nat := 356
-def «RulesBasedSamplerCondition.GetComputedField» : Nat := 357
-def «RulesBasedSamplerCondition.Init» : Nat := 358
-def «RulesBasedSamplerCondition.Init$1» : Nat := 359
-def «RulesBasedSamplerCondition.String» : Nat := 360
-def «RulesBasedSamplerCondition.setMatchesFunction» : Nat := 361
-def «RulesBasedSamplerCondition.setMatchesFunction$1» : Nat := 362
-def «RulesBasedSamplerCondition.setMatchesFunction$2» : Nat := 363
-def «RulesBasedSamplerConfig.GetSamplingFields» : Nat := 364
-def «RulesBasedSamplerConfig.String» : Nat := 365
-def «RulesBasedSamplerRule.String» : Nat := 366
-def «SampleCacheConfig.GetDroppedSizePerWorker» : Nat := 367
-def «SampleCacheConfig.GetKeptSizePerWorker» : Nat := 368
-def «SerializeToYAML» : Nat := 369
-def «StressRelief.GetSampleRate» : Nat := 370
-def «StressRelief.Recalc» : Nat := 371
-def «StressRelief.Start» : Nat := 372
-def «StressRelief.Start$1» : Nat := 373
-def «StressRelief.Start$2» : Nat := 374
-def «StressRelief.Stressed» : Nat := 375
-def «StressRelief.UpdateFromConfig» : Nat := 376
-def «StressRelief.clusterStressLevel» : Nat := 377
-def «StressRelief.linear» : Nat := 378
-def «StressRelief.onStressLevelUpdate» : Nat := 379
-def «StressRelief.ratio» : Nat := 380
-def «StressRelief.sigmoid» : Nat := 381
-def «StressRelief.sqrt» : Nat := 382
-def «StressRelief.square» : Nat := 383
-def «TotalThroughputSamplerConfig.GetSamplingFields» : Nat := 384
-def «TraceServer.ExportTraceData» : Nat := 385
-def «TracesConfig.GetBatchTimeout» : Nat := 386
-def «TracesConfig.GetMaxBatchSize» : Nat := 387
-def «TracesConfig.GetMaxExpiredTraces» : Nat := 388
-def «TracesConfig.GetSendDelay» : Nat := 389
-def «TracesConfig.GetSendTickerValue» : Nat := 390
-def «TracesConfig.GetTraceTimeout» : Nat := 391
-def «TryConvertToBool» : Nat := 392
-def «V2SamplerChoice.GetSamplingFields» : Nat := 393
-def «V2SamplerChoice.NameMeaningfulSamplers» : Nat := 394
-def «V2SamplerChoice.Sampler» : Nat := 395
-def «Validation.GetArgAsStringSlice» : Nat := 396
-def «ValidationResult.IsError» : Nat := 397
-def «ValidationResult.isEmpty» : Nat := 398
-def «ValidationResults.HasErrors» : Nat := 399
-def «WindowedThroughputSamplerConfig.GetSamplingFields» : Nat := 400
-def «WithConfigData» : Nat := 401
-def «WithConfigData$1» : Nat := 402
-def «WithRulesData» : Nat := 403
-def «WithRulesData$1» : Nat := 404
-def «addIncomingUserAgent» : Nat := 405
-def «applyCmdEnvTags» : Nat := 406
-def «applyConfigInto» : Nat := 407
-def «asFloat» : Nat := 408
-def «batchedEvent.MarshalMsg» : Nat := 409
-def «batchedEvent.UnmarshalMsg» : Nat := 410
-def «batchedEvent.getEventTime» : Nat := 411
-def «batchedEvent.getSampleRate» : Nat := 412
-def «batchedEvents.MarshalJSON» : Nat := 413
-def «batchedEvents.UnmarshalJSON» : Nat := 414
-def «batchedEvents.UnmarshalMsg» : Nat := 415
-def «batchedEvents.unmarshalBatchedEventFromFastJSON» : Nat := 416
-def «batchedEvents.unmarshalBatchedEventFromFastJSON$1» : Nat := 417
-def «batchedEvents.unmarshalBatchedEventFromFastJSON$2» : Nat := 418
-def «buildRequestURL» : Nat := 419
-def «checkForDeprecation» : Nat := 420
-def «clamp» : Nat := 421
-def «compareVersions» : Nat := 422
-def «convertToString» : Nat := 423
-def «cuckooDroppedRecord.Count» : Nat := 424
-def «cuckooDroppedRecord.DescendantCount» : Nat := 425
-def «cuckooDroppedRecord.Kept» : Nat := 426
-def «cuckooDroppedRecord.Rate» : Nat := 427
-def «cuckooDroppedRecord.Reason» : Nat := 428
-def «cuckooDroppedRecord.SpanCount» : Nat := 429
-def «cuckooDroppedRecord.SpanEventCount» : Nat := 430
-def «cuckooDroppedRecord.SpanLinkCount» : Nat := 431
-def «cuckooSentCache.CheckSpan» : Nat := 432
-def «cuckooSentCache.CheckTrace» : Nat := 433
-def «cuckooSentCache.Record» : Nat := 434
-def «cuckooSentCache.Resize» : Nat := 435
-def «cuckooSentCache.Stop» : Nat := 436
-def «cuckooSentCache.monitor» : Nat := 437
-def «customTraceExportHandler» : Nat := 438
-def «customTraceExportHandler$1» : Nat := 439
-def «envGetterFunc» : Nat := 440
-def «environmentCache.addItem» : Nat := 441
-def «environmentCache.get» : Nat := 442
-def «expandEnvVarsInConfig» : Nat := 443
-def «expandEnvVarsInString» : Nat := 444
-def «expandEnvVarsInString$1» : Nat := 445
-def «expandEnvVarsInValues» : Nat := 446
-def «fileConfig.DetermineSamplerKey» : Nat := 447
-def «fileConfig.GetAccessKeyConfig» : Nat := 448
-def «fileConfig.GetAddCountsToRoot» : Nat := 449
-def «fileConfig.GetAddHostMetadataToTrace» : Nat := 450
-def «fileConfig.GetAddRuleReasonToTrace» : Nat := 451
-def «fileConfig.GetAddSpanCountToRoot» : Nat := 452
-def «fileConfig.GetAdditionalAttributes» : Nat := 453
-def «fileConfig.GetAdditionalErrorFields» : Nat := 454
-def «fileConfig.GetAdditionalHeaders» : Nat := 455
-def «fileConfig.GetAllSamplerRules» : Nat := 456
-def «fileConfig.GetCollectionConfig» : Nat := 457
-def «fileConfig.GetCompressPeerCommunication» : Nat := 458
-def «fileConfig.GetConfigMetadata» : Nat := 459
-def «fileConfig.GetDatasetPrefix» : Nat := 460
-def «fileConfig.GetDebugServiceAddr» : Nat := 461
-def «fileConfig.GetEnvironmentCacheTTL» : Nat := 462
-def «fileConfig.GetGRPCConfig» : Nat := 463
-def «fileConfig.GetGRPCEnabled» : Nat := 464
-def «fileConfig.GetGRPCListenAddr» : Nat := 465
-def «fileConfig.GetGeneralConfig» : Nat := 466
-def «fileConfig.GetHTTPIdleTimeout» : Nat := 467
-def «fileConfig.GetHashes» : Nat := 468
-def «fileConfig.GetHealthCheckTimeout» : Nat := 469
-def «fileConfig.GetHoneycombAPI» : Nat := 470
-def «fileConfig.GetHoneycombLoggerConfig» : Nat := 471
-def «fileConfig.GetIdentifierInterfaceName» : Nat := 472
-def «fileConfig.GetIsDryRun» : Nat := 473
-def «fileConfig.GetListenAddr» : Nat := 474
-def «fileConfig.GetLoggerLevel» : Nat := 475
-def «fileConfig.GetLoggerType» : Nat := 476
-def «fileConfig.GetOTelMetricsConfig» : Nat := 477
-def «fileConfig.GetOTelTracingConfig» : Nat := 478
-def «fileConfig.GetOpAMPConfig» : Nat := 479
-def «fileConfig.GetParentIdFieldNames» : Nat := 480
-def «fileConfig.GetPeerListenAddr» : Nat := 481
-def «fileConfig.GetPeerManagementType» : Nat := 482
-def «fileConfig.GetPeerTimeout» : Nat := 483
-def «fileConfig.GetPeers» : Nat := 484
-def «fileConfig.GetPrometheusMetricsConfig» : Nat := 485
-def «fileConfig.GetQueryAuthToken» : Nat := 486
-def «fileConfig.GetRedisAuthCode» : Nat := 487
-def «fileConfig.GetRedisClusterHosts» : Nat := 488
-def «fileConfig.GetRedisDatabase» : Nat := 489
-def «fileConfig.GetRedisHost» : Nat := 490
-def «fileConfig.GetRedisIdentifier» : Nat := 491
-def «fileConfig.GetRedisPassword» : Nat := 492
-def «fileConfig.GetRedisPeerManagement» : Nat := 493
-def «fileConfig.GetRedisPrefix» : Nat := 494
-def «fileConfig.GetRedisUsername» : Nat := 495
-def «fileConfig.GetSampleCacheConfig» : Nat := 496
-def «fileConfig.GetSamplerConfigForDestName» : Nat := 497
-def «fileConfig.GetSamplingKeyFieldsForDestName» : Nat := 498
-def «fileConfig.GetStdoutLoggerConfig» : Nat := 499
-def «fileConfig.GetStressReliefConfig» : Nat := 500
-def «fileConfig.GetTraceIdFieldNames» : Nat := 501
-def «fileConfig.GetTracesConfig» : Nat := 502
-def «fileConfig.GetUseIPV6Identifier» : Nat := 503
-def «fileConfig.GetUseTLS» : Nat := 504
-def «fileConfig.GetUseTLSInsecure» : Nat := 505
-def «fileConfig.RegisterReloadCallback» : Nat := 506
-def «fileConfig.Reload» : Nat := 507
-def «flatten» : Nat := 508
-def «formatFromFilename» : Nat := 509
-def «formatFromResponse» : Nat := 510
-def «getAPIKeyAndDatasetFromMetadata» : Nat := 511
-def «getBytesFor» : Nat := 512
-def «getConfigDataForLocations» : Nat := 513
-def «getDatasetFromRequest» : Nat := 514
-def «getDefaultTrueValue» : Nat := 515
-def «getEventTime» : Nat := 516
-def «getFirstValueFromMetadata» : Nat := 517
-def «getIdentifierFromInterface» : Nat := 518
-def «getPeerManagementConfig» : Nat := 519
-def «getRefineryTelemetryConfig» : Nat := 520
-def «getUserAgentFromRequest» : Nat := 521
-def «hashList» : Nat := 522
-def «init» : Nat := 523
-def «iopLogger.Debug» : Nat := 524
-def «iopLogger.Error» : Nat := 525
-def «iopLogger.Info» : Nat := 526
-def «isString» : Nat := 527
-def «isVersionDeprecated» : Nat := 528
-def «keptTraceCacheEntry.Count» : Nat := 529
-def «keptTraceCacheEntry.DescendantCount» : Nat := 530
-def «keptTraceCacheEntry.Kept» : Nat := 531
-def «keptTraceCacheEntry.Rate» : Nat := 532
-def «keptTraceCacheEntry.SpanCount» : Nat := 533
-def «keptTraceCacheEntry.SpanEventCount» : Nat := 534
-def «keptTraceCacheEntry.SpanLinkCount» : Nat := 535
-def «load» : Nat := 536
-def «loadConfigsInto» : Nat := 537
-def «loadConfigsIntoMap» : Nat := 538
-def «loadNamedMetadata» : Nat := 539
-def «makeDecoders» : Nat := 540
-def «maskString» : Nat := 541
-def «mergeTraceAndSpanSampleRates» : Nat := 542
-def «mustFloat» : Nat := 543
-def «newBatchedEvents» : Nat := 544
-def «newConfigAndRules» : Nat := 545
-def «newEnvironmentCache» : Nat := 546
-def «newFileConfig» : Nat := 547
-def «newPeerCommand» : Nat := 548
-def «newStressReliefMessage» : Nat := 549
-def «parseFractionalEpoch» : Nat := 550
-def «peerCommand.marshal» : Nat := 551
-def «peerCommand.unmarshal» : Nat := 552
-def «populateConfigContents» : Nat := 553
-def «publicAddr» : Nat := 554
-def «randStringBytes» : Nat := 555
-def «recycleHTTPBodyBuffer» : Nat := 556
-def «registerCustomTraceService» : Nat := 557
-def «selectIPFromAddrs» : Nat := 558
-def «setCompareOperators» : Nat := 559
-def «setCompareOperators$1» : Nat := 560
-def «setCompareOperators$10» : Nat := 561
-def «setCompareOperators$11» : Nat := 562
-def «setCompareOperators$12» : Nat := 563
-def «setCompareOperators$13» : Nat := 564
-def «setCompareOperators$14» : Nat := 565
-def «setCompareOperators$15» : Nat := 566
-def «setCompareOperators$16» : Nat := 567
-def «setCompareOperators$17» : Nat := 568
-def «setCompareOperators$18» : Nat := 569
-def «setCompareOperators$19» : Nat := 570
-def «setCompareOperators$2» : Nat := 571
-def «setCompareOperators$20» : Nat := 572
-def «setCompareOperators$3» : Nat := 573
-def «setCompareOperators$4» : Nat := 574
-def «setCompareOperators$5» : Nat := 575
-def «setCompareOperators$6» : Nat := 576
-def «setCompareOperators$7» : Nat := 577
-def «setCompareOperators$8» : Nat := 578
-def «setCompareOperators$9» : Nat := 579
-def «setInBasedOperators» : Nat := 580
-def «setInBasedOperators$1» : Nat := 581
-def «setInBasedOperators$2» : Nat := 582
-def «setInBasedOperators$3» : Nat := 583
-def «setInBasedOperators$4» : Nat := 584
-def «setMatchStringBasedOperators» : Nat := 585
-def «setMatchStringBasedOperators$1» : Nat := 586
-def «setMatchStringBasedOperators$2» : Nat := 587
-def «setMatchStringBasedOperators$3» : Nat := 588
-def «setRegexStringMatchOperator» : Nat := 589
-def «setRegexStringMatchOperator$1» : Nat := 590
-def «statusRecorder.WriteHeader» : Nat := 591
-def «stressReliefMessage.String» : Nat := 592
-def «translatedTraceServiceRequest.ProtoMessage» : Nat := 593
-def «translatedTraceServiceRequest.Reset» : Nat := 594
-def «translatedTraceServiceRequest.String» : Nat := 595
-def «translatedTraceServiceRequest.Unmarshal» : Nat := 596
-def «tryConvertToFloat» : Nat := 597
-def «tryConvertToInt» : Nat := 598
-def «unmarshal» : Nat := 599
-def «unmarshalStressReliefMessage» : Nat := 600
-def «validateConfigs» : Nat := 601
-def «validateDatatype» : Nat := 602
-def «validateRules» : Nat := 603
-def «writeYAMLToFile» : Nat := 604
+def «DeterministicSampler.GetKeyFields» : Nat := 58
+def «DeterministicSampler.GetSampleRate» : Nat := 59
+def «DeterministicSampler.Start» : Nat := 60
+def «DeterministicSampler.Start$1» : Nat := 61
+def «DeterministicSamplerConfig.GetSamplingFields» : Nat := 62
+def «DirectTransmission.EnqueueEvent» : Nat := 63
+def «DirectTransmission.EnqueueEvent$1» : Nat := 64
+def «DirectTransmission.EnqueueSpan» : Nat := 65
+def «DirectTransmission.Start» : Nat := 66
+def «DirectTransmission.Stop» : Nat := 67
+def «DirectTransmission.Stop$1» : Nat := 68
+def «DirectTransmission.dispatchStaleBatches» : Nat := 69
+def «DirectTransmission.dispatchStaleBatches$1» : Nat := 70
+def «DirectTransmission.handleBatchFailure» : Nat := 71
+def «DirectTransmission.handleError» : Nat := 72
+def «DirectTransmission.handleEventError» : Nat := 73
+def «DirectTransmission.registerMetrics» : Nat := 74
+def «DirectTransmission.sendBatch» : Nat := 75
+def «Duration.MarshalText» : Nat := 76
+def «Duration.UnmarshalText» : Nat := 77
+def «DynamicSampler.GetKeyFields» : Nat := 78
+def «DynamicSampler.GetSampleRate» : Nat := 79
+def «DynamicSampler.Start» : Nat := 80
+def «DynamicSampler.Start$1» : Nat := 81
+def «DynamicSamplerConfig.GetSamplingFields» : Nat := 82
+def «EMADynamicSampler.GetKeyFields» : Nat := 83
+def «EMADynamicSampler.GetSampleRate» : Nat := 84
+def «EMADynamicSampler.Start» : Nat := 85
+def «EMADynamicSampler.Start$1» : Nat := 86
+def «EMADynamicSamplerConfig.GetSamplingFields» : Nat := 87
+def «EMAThroughputSampler.GetKeyFields» : Nat := 88
+def «EMAThroughputSampler.GetSampleRate» : Nat := 89
+def «EMAThroughputSampler.Start» : Nat := 90
+def «EMAThroughputSampler.Start$1» : Nat := 91
+def «EMAThroughputSamplerConfig.GetSamplingFields» : Nat := 92
+def «FileConfigError.Error» : Nat := 93
+def «FileConfigError.HasErrors» : Nat := 94
+def «FilePeers.GetInstanceID» : Nat := 95
+def «FilePeers.GetPeers» : Nat := 96
+def «FilePeers.Ready» : Nat := 97
+def «FilePeers.RegisterUpdatedPeersCallback» : Nat := 98
+def «FilePeers.Start» : Nat := 99
+def «FilePeers.Start$1» : Nat := 100
+def «GetCollectorImplementation» : Nat := 101
+def «GetKeyFields» : Nat := 102
+def «GetMetricsImplementation» : Nat := 103
+def «Group.GetDeprecationVersion» : Nat := 104
+def «Group.IsDeprecated» : Nat := 105
+def «HoneycombLoggerConfig.GetSamplerEnabled» : Nat := 106
+def «InMemCollector.AddSpan» : Nat := 107
+def «InMemCollector.AddSpanFromPeer» : Nat := 108
+def «InMemCollector.GetStressedSampleRate» : Nat := 109
+def «InMemCollector.IsMyTrace» : Nat := 110
+def «InMemCollector.ProcessSpanImmediately» : Nat := 111
+def «InMemCollector.Start» : Nat := 112
+def «InMemCollector.Start$1» : Nat := 113
+def «InMemCollector.Stop» : Nat := 114
+def «InMemCollector.Stressed» : Nat := 115
+def «InMemCollector.addAdditionalAttributes» : Nat := 116
+def «InMemCollector.checkAlloc» : Nat := 117
+def «InMemCollector.dealWithSentTrace» : Nat := 118
+def «InMemCollector.getWorkerIDForTrace» : Nat := 119
+def «InMemCollector.isReady» : Nat := 120
+def «InMemCollector.monitor» : Nat := 121
+def «InMemCollector.reloadConfigs» : Nat := 122
+def «InMemCollector.send» : Nat := 123
+def «InMemCollector.sendReloadSignal» : Nat := 124
+def «InMemCollector.sendTraces» : Nat := 125
+def «IsLegacyAPIKey» : Nat := 126
+def «KeptReasonsCache.Get» : Nat := 127
+def «KeptReasonsCache.Set» : Nat := 128
+def «Level.MarshalText» : Nat := 129
+def «Level.String» : Nat := 130
+def «Level.UnmarshalText» : Nat := 131
+def «LoadConfigMetadata» : Nat := 132
+def «LoadRulesMetadata» : Nat := 133
+def «LogsServer.Export» : Nat := 134
+def «MemorySize.MarshalText» : Nat := 135
+def «MemorySize.UnmarshalFlag» : Nat := 136
+def «MemorySize.UnmarshalText» : Nat := 137
+def «Metadata.ClosestNamesTo» : Nat := 138
+def «Metadata.ClosestNamesTo$1» : Nat := 139
+def «Metadata.GetField» : Nat := 140
+def «Metadata.GetGroup» : Nat := 141
+def «Metadata.LoadFrom» : Nat := 142
+def «Metadata.Validate» : Nat := 143
+def «Metadata.ValidateRules» : Nat := 144
+def «MetricType.String» : Nat := 145
+def «MockCollector.AddSpan» : Nat := 146
+def «MockCollector.AddSpanFromPeer» : Nat := 147
+def «MockCollector.Flush» : Nat := 148
+def «MockCollector.GetStressedSampleRate» : Nat := 149
+def «MockCollector.ProcessSpanImmediately» : Nat := 150
+def «MockCollector.Stressed» : Nat := 151
+def «MockConfig.DetermineSamplerKey» : Nat := 152
+def «MockConfig.GetAccessKeyConfig» : Nat := 153
+def «MockConfig.GetAddCountsToRoot» : Nat := 154
+def «MockConfig.GetAddHostMetadataToTrace» : Nat := 155
+def «MockConfig.GetAddRuleReasonToTrace» : Nat := 156
+def «MockConfig.GetAddSpanCountToRoot» : Nat := 157
+def «MockConfig.GetAdditionalAttributes» : Nat := 158
+def «MockConfig.GetAdditionalErrorFields» : Nat := 159
+def «MockConfig.GetAdditionalHeaders» : Nat := 160
+def «MockConfig.GetAllSamplerRules» : Nat := 161
+def «MockConfig.GetCollectionConfig» : Nat := 162
+def «MockConfig.GetCollectorType» : Nat := 163
+def «MockConfig.GetCompressPeerCommunication» : Nat := 164
+def «MockConfig.GetConfigMetadata» : Nat := 165
+def «MockConfig.GetDatasetPrefix» : Nat := 166
+def «MockConfig.GetDebugServiceAddr» : Nat := 167
+def «MockConfig.GetEnvironmentCacheTTL» : Nat := 168
+def «MockConfig.GetGRPCConfig» : Nat := 169
+def «MockConfig.GetGRPCEnabled» : Nat := 170
+def «MockConfig.GetGRPCListenAddr» : Nat := 171
+def «MockConfig.GetGeneralConfig» : Nat := 172
+def «MockConfig.GetHTTPIdleTimeout» : Nat := 173
+def «MockConfig.GetHashes» : Nat := 174
+def «MockConfig.GetHealthCheckTimeout» : Nat := 175
+def «MockConfig.GetHoneycombAPI» : Nat := 176
+def «MockConfig.GetHoneycombLoggerConfig» : Nat := 177
+def «MockConfig.GetIdentifierInterfaceName» : Nat := 178
+def «MockConfig.GetIsDryRun» : Nat := 179
+def «MockConfig.GetListenAddr» : Nat := 180
+def «MockConfig.GetLoggerLevel» : Nat := 181
+def «MockConfig.GetLoggerType» : Nat := 182
+def «MockConfig.GetOTelMetricsConfig» : Nat := 183
+def «MockConfig.GetOTelTracingConfig» : Nat := 184
+def «MockConfig.GetOpAMPConfig» : Nat := 185
+def «MockConfig.GetParentIdFieldNames» : Nat := 186
+def «MockConfig.GetPeerListenAddr» : Nat := 187
+def «MockConfig.GetPeerManagementType» : Nat := 188
+def «MockConfig.GetPeerTimeout» : Nat := 189
+def «MockConfig.GetPeers» : Nat := 190
+def «MockConfig.GetPrometheusMetricsConfig» : Nat := 191
+def «MockConfig.GetQueryAuthToken» : Nat := 192
+def «MockConfig.GetRedisIdentifier» : Nat := 193
+def «MockConfig.GetRedisPeerManagement» : Nat := 194
+def «MockConfig.GetSampleCacheConfig» : Nat := 195
+def «MockConfig.GetSamplerConfigForDestName» : Nat := 196
+def «MockConfig.GetSamplingKeyFieldsForDestName» : Nat := 197
+def «MockConfig.GetStdoutLoggerConfig» : Nat := 198
+def «MockConfig.GetStressReliefConfig» : Nat := 199
+def «MockConfig.GetTraceIdFieldNames» : Nat := 200
+def «MockConfig.GetTracesConfig» : Nat := 201
+def «MockConfig.GetUseIPV6Identifier» : Nat := 202
+def «MockConfig.RegisterReloadCallback» : Nat := 203
+def «MockConfig.Reload» : Nat := 204
+def «MockConfig.SetMaxAlloc» : Nat := 205
+def «MockGRPCHealthWatchServer.GetSentMessages» : Nat := 206
+def «MockGRPCHealthWatchServer.Send» : Nat := 207
+def «MockMetrics.Count» : Nat := 208
+def «MockMetrics.Down» : Nat := 209
+def «MockMetrics.Gauge» : Nat := 210
+def «MockMetrics.Get» : Nat := 211
+def «MockMetrics.GetHistogramCount» : Nat := 212
+def «MockMetrics.Histogram» : Nat := 213
+def «MockMetrics.Increment» : Nat := 214
+def «MockMetrics.Register» : Nat := 215
+def «MockMetrics.Start» : Nat := 216
+def «MockMetrics.Stop» : Nat := 217
+def «MockMetrics.Store» : Nat := 218
+def «MockMetrics.Up» : Nat := 219
+def «MockPeers.GetInstanceID» : Nat := 220
+def «MockPeers.GetPeers» : Nat := 221
+def «MockPeers.Ready» : Nat := 222
+def «MockPeers.RegisterUpdatedPeersCallback» : Nat := 223
+def «MockPeers.Start» : Nat := 224
+def «MockPeers.UpdatePeers» : Nat := 225
+def «MockStressReliever.GetSampleRate» : Nat := 226
+def «MockStressReliever.Recalc» : Nat := 227
+def «MockStressReliever.ShouldSampleDeterministically» : Nat := 228
+def «MockStressReliever.Start» : Nat := 229
+def «MockStressReliever.Stressed» : Nat := 230
+def «MockStressReliever.UpdateFromConfig» : Nat := 231
+def «MockTransmission.EnqueueEvent» : Nat := 232
+def «MockTransmission.EnqueueSpan» : Nat := 233
+def «MockTransmission.GetBlock» : Nat := 234
+def «MockTransmission.RegisterMetrics» : Nat := 235
+def «MockTransmission.Start» : Nat := 236
+def «MockTransmission.Stop» : Nat := 237
+def «MultiMetrics.AddChild» : Nat := 238
+def «MultiMetrics.Children» : Nat := 239
+def «MultiMetrics.Count» : Nat := 240
+def «MultiMetrics.Down» : Nat := 241
+def «MultiMetrics.Gauge» : Nat := 242
+def «MultiMetrics.Get» : Nat := 243
+def «MultiMetrics.Histogram» : Nat := 244
+def «MultiMetrics.Increment» : Nat := 245
+def «MultiMetrics.Register» : Nat := 246
+def «MultiMetrics.Start» : Nat := 247
+def «MultiMetrics.Store» : Nat := 248
+def «MultiMetrics.Up» : Nat := 249
+def «NewCmdEnvOptions» : Nat := 250
+def «NewCollectorWorker» : Nat := 251
+def «NewConfig» : Nat := 252
+def «NewConfigData» : Nat := 253
+def «NewCuckooSentCache» : Nat := 254
+def «NewCuckooTraceChecker» : Nat := 255
+def «NewCuckooTraceChecker$1» : Nat := 256
+def «NewDefaultTransmission» : Nat := 257
+def «NewDirectTransmission» : Nat := 258
+def «NewInMemCache» : Nat := 259
+def «NewInMemCache$1» : Nat := 260
+def «NewInMemCache$2» : Nat := 261
+def «NewKeptReasonsCache» : Nat := 262
+def «NewKeptTraceCacheEntry» : Nat := 263
+def «NewLogsServer» : Nat := 264
+def «NewMockCollector» : Nat := 265
+def «NewMockPeers» : Nat := 266
+def «NewMultiMetrics» : Nat := 267
+def «NewTraceServer» : Nat := 268
+def «NullMetrics.Count» : Nat := 269
+def «NullMetrics.Down» : Nat := 270
+def «NullMetrics.Gauge» : Nat := 271
+def «NullMetrics.Get» : Nat := 272
+def «NullMetrics.Histogram» : Nat := 273
+def «NullMetrics.Increment» : Nat := 274
+def «NullMetrics.Register» : Nat := 275
+def «NullMetrics.Start» : Nat := 276
+def «NullMetrics.Stop» : Nat := 277
+def «NullMetrics.Store» : Nat := 278
+def «NullMetrics.Up» : Nat := 279
+def «OTelMetrics.Count» : Nat := 280
+def «OTelMetrics.Down» : Nat := 281
+def «OTelMetrics.Gauge» : Nat := 282
+def «OTelMetrics.Histogram» : Nat := 283
+def «OTelMetrics.Increment» : Nat := 284
+def «OTelMetrics.Register» : Nat := 285
+def «OTelMetrics.Start» : Nat := 286
+def «OTelMetrics.Start$1» : Nat := 287
+def «OTelMetrics.Start$2» : Nat := 288
+def «OTelMetrics.Start$3» : Nat := 289
+def «OTelMetrics.Start$4» : Nat := 290
+def «OTelMetrics.Stop» : Nat := 291
+def «OTelMetrics.Up» : Nat := 292
+def «OTelMetrics.getOrInitCounter» : Nat := 293
+def «OTelMetrics.getOrInitGauge» : Nat := 294
+def «OTelMetrics.getOrInitHistogram» : Nat := 295
+def «OTelMetrics.getOrInitUpDown» : Nat := 296
+def «ParseLevel» : Nat := 297
+def «PrefixMetricName» : Nat := 298
+def «PromMetrics.Count» : Nat := 299
+def «PromMetrics.Down» : Nat := 300
+def «PromMetrics.Gauge» : Nat := 301
+def «PromMetrics.Histogram» : Nat := 302
+def «PromMetrics.Increment» : Nat := 303
+def «PromMetrics.Register» : Nat := 304
+def «PromMetrics.Start» : Nat := 305
+def «PromMetrics.Start$1» : Nat := 306
+def «PromMetrics.Up» : Nat := 307
+def «RedisPubsubPeers.GetInstanceID» : Nat := 308
+def «RedisPubsubPeers.GetPeers» : Nat := 309
+def «RedisPubsubPeers.Ready» : Nat := 310
+def «RedisPubsubPeers.Ready$1» : Nat := 311
+def «RedisPubsubPeers.RegisterUpdatedPeersCallback» : Nat := 312
+def «RedisPubsubPeers.Start» : Nat := 313
+def «RedisPubsubPeers.checkHash» : Nat := 314
+def «RedisPubsubPeers.listen» : Nat := 315
+def «RedisPubsubPeers.stop» : Nat := 316
+def «Router.AddOTLPMuxxer» : Nat := 317
+def «Router.Check» : Nat := 318
+def «Router.LnS» : Nat := 319
+def «Router.LnS$1» : Nat := 320
+def «Router.SetEnvironmentCache» : Nat := 321
+def «Router.SetEnvironmentCache$1» : Nat := 322
+def «Router.SetType» : Nat := 323
+def «Router.SetVersion» : Nat := 324
+def «Router.Stop» : Nat := 325
+def «Router.Watch» : Nat := 326
+def «Router.alive» : Nat := 327
+def «Router.apiKeyProcessor» : Nat := 328
+def «Router.apiKeyProcessor$1» : Nat := 329
+def «Router.batch» : Nat := 330
+def «Router.debugTrace» : Nat := 331
+def «Router.event» : Nat := 332
+def «Router.getAllSamplerRules» : Nat := 333
+def «Router.getConfigMetadata» : Nat := 334
+def «Router.getEnvironmentName» : Nat := 335
+def «Router.getKeyID» : Nat := 336
+def «Router.getSamplerRules» : Nat := 337
+def «Router.handleOTLPFailureResponse» : Nat := 338
+def «Router.handlerReturnWithError» : Nat := 339
+def «Router.lookupEnvironment» : Nat := 340
+def «Router.marshalToFormat» : Nat := 341
+def «Router.panic» : Nat := 342
+def «Router.panicCatcher» : Nat := 343
+def «Router.panicCatcher$1» : Nat := 344
+def «Router.panicCatcher$2» : Nat := 345
+def «Router.postOTLPLogs» : Nat := 346
+def «Router.postOTLPTrace» : Nat := 347
+def «Router.processEvent» : Nat := 348
+def «Router.processOTLPRequest» : Nat := 349
+def «Router.processOTLPRequestBatchMsgp» : Nat := 350
+def «Router.processOTLPRequestWithMsgp» : Nat := 351
+def «Router.proxy» : Nat := 352
+def «Router.queryTokenChecker» : Nat := 353
+def «Router.queryTokenChecker$1» : Nat := 354
+def «Router.readAndCloseMaybeCompressedBody» : Nat := 355
+def «Router.readBodyToBuffer» : Nat := 356
+def «Router.readGzipBody» : Nat := 357
+def «Router.readUncompressedBody» : Nat := 358
+def «Router.readZstdBody» : Nat := 359
+def «Router.ready» : Nat := 360
+def «Router.registerMetricNames» : Nat := 361
+def «Router.requestLogger» : Nat := 362
+def «Router.requestLogger$1» : Nat := 363
+def «Router.requestToEvent» : Nat := 364
+def «Router.setResponseHeaders» : Nat := 365
+def «Router.setResponseHeaders$1» : Nat := 366
+def «Router.startGRPCHealthMonitor» : Nat := 367
+def «Router.startGRPCHealthMonitor$1» : Nat := 368
+def «Router.startGRPCHealthMonitor$2» : Nat := 369
+def «Router.version» : Nat := 370
+def «RulesBasedDownstreamSampler.GetSamplingFields» : Nat := 371
+def «RulesBasedDownstreamSampler.NameMeaningfulRate» : Nat := 372
+def «RulesBasedSampler.GetKeyFields» : Nat := 373
+def «RulesBasedSampler.GetSampleRate» : Nat := 374
+def «RulesBasedSampler.Start» : Nat := 375
+def «RulesBasedSampler.Start$1» : Nat := 376
+def «RulesBasedSamplerCondition.GetComputedField» : Nat := 377
+def «RulesBasedSamplerCondition.Init» : Nat := 378
+def «RulesBasedSamplerCondition.Init$1» : Nat := 379
+def «RulesBasedSamplerCondition.String» : Nat := 380
+def «RulesBasedSamplerCondition.setMatchesFunction» : Nat := 381
+def «RulesBasedSamplerCondition.setMatchesFunction$1» : Nat := 382
+def «RulesBasedSamplerCondition.setMatchesFunction$2» : Nat := 383
+def «RulesBasedSamplerConfig.GetSamplingFields» : Nat := 384
+def «RulesBasedSamplerConfig.String» : Nat := 385
+def «RulesBasedSamplerRule.String» : Nat := 386
+def «SampleCacheConfig.GetDroppedSizePerWorker» : Nat := 387
+def «SampleCacheConfig.GetKeptSizePerWorker» : Nat := 388
+def «SamplerFactory.ClearDynsamplers» : Nat := 389
+def «SamplerFactory.GetDownstreamSampler» : Nat := 390
+def «SamplerFactory.GetSamplerImplementationForKey» : Nat := 391
+def «SamplerFactory.Start» : Nat := 392
+def «SamplerFactory.Stop» : Nat := 393
+def «SamplerFactory.createSampler» : Nat := 394
+def «SamplerFactory.updatePeerCounts» : Nat := 395
+def «SerializeToYAML» : Nat := 396
+def «StressRelief.GetSampleRate» : Nat := 397
+def «StressRelief.Recalc» : Nat := 398
+def «StressRelief.Start» : Nat := 399
+def «StressRelief.Start$1» : Nat := 400
+def «StressRelief.Start$2» : Nat := 401
+def «StressRelief.Stressed» : Nat := 402
+def «StressRelief.UpdateFromConfig» : Nat := 403
+def «StressRelief.clusterStressLevel» : Nat := 404
+def «StressRelief.linear» : Nat := 405
+def «StressRelief.onStressLevelUpdate» : Nat := 406
+def «StressRelief.ratio» : Nat := 407
+def «StressRelief.sigmoid» : Nat := 408
+def «StressRelief.sqrt» : Nat := 409
+def «StressRelief.square» : Nat := 410
+def «TotalThroughputSampler.GetKeyFields» : Nat := 411
+def «TotalThroughputSampler.GetSampleRate» : Nat := 412
+def «TotalThroughputSampler.Start» : Nat := 413
+def «TotalThroughputSampler.Start$1» : Nat := 414
+def «TotalThroughputSamplerConfig.GetSamplingFields» : Nat := 415
+def «TraceServer.ExportTraceData» : Nat := 416
+def «TracesConfig.GetBatchTimeout» : Nat := 417
+def «TracesConfig.GetMaxBatchSize» : Nat := 418
+def «TracesConfig.GetMaxExpiredTraces» : Nat := 419
+def «TracesConfig.GetSendDelay» : Nat := 420
+def «TracesConfig.GetSendTickerValue» : Nat := 421
+def «TracesConfig.GetTraceTimeout» : Nat := 422
+def «TryConvertToBool» : Nat := 423
+def «V2SamplerChoice.GetSamplingFields» : Nat := 424
+def «V2SamplerChoice.NameMeaningfulSamplers» : Nat := 425
+def «V2SamplerChoice.Sampler» : Nat := 426
+def «Validation.GetArgAsStringSlice» : Nat := 427
+def «ValidationResult.IsError» : Nat := 428
+def «ValidationResult.isEmpty» : Nat := 429
+def «ValidationResults.HasErrors» : Nat := 430
+def «WindowedThroughputSampler.GetKeyFields» : Nat := 431
+def «WindowedThroughputSampler.GetSampleRate» : Nat := 432
+def «WindowedThroughputSampler.Start» : Nat := 433
+def «WindowedThroughputSampler.Start$1» : Nat := 434
+def «WindowedThroughputSamplerConfig.GetSamplingFields» : Nat := 435
+def «WithConfigData» : Nat := 436
+def «WithConfigData$1» : Nat := 437
+def «WithRulesData» : Nat := 438
+def «WithRulesData$1» : Nat := 439
+def «addIncomingUserAgent» : Nat := 440
+def «applyCmdEnvTags» : Nat := 441
+def «applyConfigInto» : Nat := 442
+def «asFloat» : Nat := 443
+def «batchedEvent.MarshalMsg» : Nat := 444
+def «batchedEvent.UnmarshalMsg» : Nat := 445
+def «batchedEvent.getEventTime» : Nat := 446
+def «batchedEvent.getSampleRate» : Nat := 447
+def «batchedEvents.MarshalJSON» : Nat := 448
+def «batchedEvents.UnmarshalJSON» : Nat := 449
+def «batchedEvents.UnmarshalMsg» : Nat := 450
+def «batchedEvents.unmarshalBatchedEventFromFastJSON» : Nat := 451
+def «batchedEvents.unmarshalBatchedEventFromFastJSON$1» : Nat := 452
+def «batchedEvents.unmarshalBatchedEventFromFastJSON$2» : Nat := 453
+def «buildRequestURL» : Nat := 454
+def «checkForDeprecation» : Nat := 455
+def «clamp» : Nat := 456
+def «compare» : Nat := 457
+def «compareVersions» : Nat := 458
+def «conditionMatchesValue» : Nat := 459
+def «convertToString» : Nat := 460
+def «createDynForDynamicSampler» : Nat := 461
+def «createDynForEMADynamicSampler» : Nat := 462
+def «createDynForEMAThroughputSampler» : Nat := 463
+def «createDynForTotalThroughputSampler» : Nat := 464
+def «createDynForWindowedThroughputSampler» : Nat := 465
+def «cuckooDroppedRecord.Count» : Nat := 466
+def «cuckooDroppedRecord.DescendantCount» : Nat := 467
+def «cuckooDroppedRecord.Kept» : Nat := 468
+def «cuckooDroppedRecord.Rate» : Nat := 469
+def «cuckooDroppedRecord.Reason» : Nat := 470
+def «cuckooDroppedRecord.SpanCount» : Nat := 471
+def «cuckooDroppedRecord.SpanEventCount» : Nat := 472
+def «cuckooDroppedRecord.SpanLinkCount» : Nat := 473
+def «cuckooSentCache.CheckSpan» : Nat := 474
+def «cuckooSentCache.CheckTrace» : Nat := 475
+def «cuckooSentCache.Record» : Nat := 476
+def «cuckooSentCache.Resize» : Nat := 477
+def «cuckooSentCache.Stop» : Nat := 478
+def «cuckooSentCache.monitor» : Nat := 479
+def «customTraceExportHandler» : Nat := 480
+def «customTraceExportHandler$1» : Nat := 481
+def «distinctValue.AddAsString» : Nat := 482
+def «distinctValue.Reset» : Nat := 483
+def «distinctValue.Values» : Nat := 484
+def «dynsamplerMetricsRecorder.RecordMetrics» : Nat := 485
+def «dynsamplerMetricsRecorder.RegisterMetrics» : Nat := 486
+def «envGetterFunc» : Nat := 487
+def «environmentCache.addItem» : Nat := 488
+def «environmentCache.get» : Nat := 489
+def «expandEnvVarsInConfig» : Nat := 490
+def «expandEnvVarsInString» : Nat := 491
+def «expandEnvVarsInString$1» : Nat := 492
+def «expandEnvVarsInValues» : Nat := 493
+def «extractValueFromSpan» : Nat := 494
+def «fileConfig.DetermineSamplerKey» : Nat := 495
+def «fileConfig.GetAccessKeyConfig» : Nat := 496
+def «fileConfig.GetAddCountsToRoot» : Nat := 497
+def «fileConfig.GetAddHostMetadataToTrace» : Nat := 498
+def «fileConfig.GetAddRuleReasonToTrace» : Nat := 499
+def «fileConfig.GetAddSpanCountToRoot» : Nat := 500
+def «fileConfig.GetAdditionalAttributes» : Nat := 501
+def «fileConfig.GetAdditionalErrorFields» : Nat := 502
+def «fileConfig.GetAdditionalHeaders» : Nat := 503
+def «fileConfig.GetAllSamplerRules» : Nat := 504
+def «fileConfig.GetCollectionConfig» : Nat := 505
+def «fileConfig.GetCompressPeerCommunication» : Nat := 506
+def «fileConfig.GetConfigMetadata» : Nat := 507
+def «fileConfig.GetDatasetPrefix» : Nat := 508
+def «fileConfig.GetDebugServiceAddr» : Nat := 509
+def «fileConfig.GetEnvironmentCacheTTL» : Nat := 510
+def «fileConfig.GetGRPCConfig» : Nat := 511
+def «fileConfig.GetGRPCEnabled» : Nat := 512
+def «fileConfig.GetGRPCListenAddr» : Nat := 513
+def «fileConfig.GetGeneralConfig» : Nat := 514
+def «fileConfig.GetHTTPIdleTimeout» : Nat := 515
+def «fileConfig.GetHashes» : Nat := 516
+def «fileConfig.GetHealthCheckTimeout» : Nat := 517
+def «fileConfig.GetHoneycombAPI» : Nat := 518
+def «fileConfig.GetHoneycombLoggerConfig» : Nat := 519
+def «fileConfig.GetIdentifierInterfaceName» : Nat := 520
+def «fileConfig.GetIsDryRun» : Nat := 521
+def «fileConfig.GetListenAddr» : Nat := 522
+def «fileConfig.GetLoggerLevel» : Nat := 523
+def «fileConfig.GetLoggerType» : Nat := 524
+def «fileConfig.GetOTelMetricsConfig» : Nat := 525
+def «fileConfig.GetOTelTracingConfig» : Nat := 526
+def «fileConfig.GetOpAMPConfig» : Nat := 527
+def «fileConfig.GetParentIdFieldNames» : Nat := 528
+def «fileConfig.GetPeerListenAddr» : Nat := 529
+def «fileConfig.GetPeerManagementType» : Nat := 530
+def «fileConfig.GetPeerTimeout» : Nat := 531
+def «fileConfig.GetPeers» : Nat := 532
+def «fileConfig.GetPrometheusMetricsConfig» : Nat := 533
+def «fileConfig.GetQueryAuthToken» : Nat := 534
+def «fileConfig.GetRedisAuthCode» : Nat := 535
+def «fileConfig.GetRedisClusterHosts» : Nat := 536
+def «fileConfig.GetRedisDatabase» : Nat := 537
+def «fileConfig.GetRedisHost» : Nat := 538
+def «fileConfig.GetRedisIdentifier» : Nat := 539
+def «fileConfig.GetRedisPassword» : Nat := 540
+def «fileConfig.GetRedisPeerManagement» : Nat := 541
+def «fileConfig.GetRedisPrefix» : Nat := 542
+def «fileConfig.GetRedisUsername» : Nat := 543
+def «fileConfig.GetSampleCacheConfig» : Nat := 544
+def «fileConfig.GetSamplerConfigForDestName» : Nat := 545
+def «fileConfig.GetSamplingKeyFieldsForDestName» : Nat := 546
+def «fileConfig.GetStdoutLoggerConfig» : Nat := 547
+def «fileConfig.GetStressReliefConfig» : Nat := 548
+def «fileConfig.GetTraceIdFieldNames» : Nat := 549
+def «fileConfig.GetTracesConfig» : Nat := 550
+def «fileConfig.GetUseIPV6Identifier» : Nat := 551
+def «fileConfig.GetUseTLS» : Nat := 552
+def «fileConfig.GetUseTLSInsecure» : Nat := 553
+def «fileConfig.RegisterReloadCallback» : Nat := 554
+def «fileConfig.Reload» : Nat := 555
+def «flatten» : Nat := 556
+def «formatFromFilename» : Nat := 557
+def «formatFromResponse» : Nat := 558
+def «getAPIKeyAndDatasetFromMetadata» : Nat := 559
+def «getBytesFor» : Nat := 560
+def «getConfigDataForLocations» : Nat := 561
+def «getDatasetFromRequest» : Nat := 562
+def «getDefaultTrueValue» : Nat := 563
+def «getEventTime» : Nat := 564
+def «getFirstValueFromMetadata» : Nat := 565
+def «getIdentifierFromInterface» : Nat := 566
+def «getMetricType» : Nat := 567
+def «getPeerManagementConfig» : Nat := 568
+def «getRefineryTelemetryConfig» : Nat := 569
+def «getSharedDynsamplerAndRecorder» : Nat := 570
+def «getUserAgentFromRequest» : Nat := 571
+def «hashList» : Nat := 572
+def «init» : Nat := 573
+def «iopLogger.Debug» : Nat := 574
+def «iopLogger.Error» : Nat := 575
+def «iopLogger.Info» : Nat := 576
+def «isString» : Nat := 577
+def «isVersionDeprecated» : Nat := 578
+def «keptTraceCacheEntry.Count» : Nat := 579
+def «keptTraceCacheEntry.DescendantCount» : Nat := 580
+def «keptTraceCacheEntry.Kept» : Nat := 581
+def «keptTraceCacheEntry.Rate» : Nat := 582
+def «keptTraceCacheEntry.SpanCount» : Nat := 583
+def «keptTraceCacheEntry.SpanEventCount» : Nat := 584
+def «keptTraceCacheEntry.SpanLinkCount» : Nat := 585
+def «load» : Nat := 586
+def «loadConfigsInto» : Nat := 587
+def «loadConfigsIntoMap» : Nat := 588
+def «loadNamedMetadata» : Nat := 589
+def «makeDecoders» : Nat := 590
+def «makeDynsamplerKey» : Nat := 591
+def «maskString» : Nat := 592
+def «mergeTraceAndSpanSampleRates» : Nat := 593
+def «mustFloat» : Nat := 594
+def «newBatchedEvents» : Nat := 595
+def «newConfigAndRules» : Nat := 596
+def «newEnvironmentCache» : Nat := 597
+def «newFileConfig» : Nat := 598
+def «newPeerCommand» : Nat := 599
+def «newSamplerMetricNames» : Nat := 600
+def «newStressReliefMessage» : Nat := 601
+def «newTraceKey» : Nat := 602
+def «parseFractionalEpoch» : Nat := 603
+def «peerCommand.marshal» : Nat := 604
+def «peerCommand.unmarshal» : Nat := 605
+def «populateConfigContents» : Nat := 606
+def «publicAddr» : Nat := 607
+def «randStringBytes» : Nat := 608
+def «recycleHTTPBodyBuffer» : Nat := 609
+def «registerCustomTraceService» : Nat := 610
+def «ruleMatchesSpanInTrace» : Nat := 611
+def «ruleMatchesTrace» : Nat := 612
+def «selectIPFromAddrs» : Nat := 613
+def «setCompareOperators» : Nat := 614
+def «setCompareOperators$1» : Nat := 615
+def «setCompareOperators$10» : Nat := 616
+def «setCompareOperators$11» : Nat := 617
+def «setCompareOperators$12» : Nat := 618
+def «setCompareOperators$13» : Nat := 619
+def «setCompareOperators$14» : Nat := 620
+def «setCompareOperators$15» : Nat := 621
+def «setCompareOperators$16» : Nat := 622
+def «setCompareOperators$17» : Nat := 623
+def «setCompareOperators$18» : Nat := 624
+def «setCompareOperators$19» : Nat := 625
+def «setCompareOperators$2» : Nat := 626
+def «setCompareOperators$20» : Nat := 627
+def «setCompareOperators$3» : Nat := 628
+def «setCompareOperators$4» : Nat := 629
+def «setCompareOperators$5» : Nat := 630
+def «setCompareOperators$6» : Nat := 631
+def «setCompareOperators$7» : Nat := 632
+def «setCompareOperators$8» : Nat := 633
+def «setCompareOperators$9» : Nat := 634
+def «setInBasedOperators» : Nat := 635
+def «setInBasedOperators$1» : Nat := 636
+def «setInBasedOperators$2» : Nat := 637
+def «setInBasedOperators$3» : Nat := 638
+def «setInBasedOperators$4» : Nat := 639
+def «setMatchStringBasedOperators» : Nat := 640
+def «setMatchStringBasedOperators$1» : Nat := 641
+def «setMatchStringBasedOperators$2» : Nat := 642
+def «setMatchStringBasedOperators$3» : Nat := 643
+def «setRegexStringMatchOperator» : Nat := 644
+def «setRegexStringMatchOperator$1» : Nat := 645
+def «statusRecorder.WriteHeader» : Nat := 646
+def «stressReliefMessage.String» : Nat := 647
+def «traceKey.build» : Nat := 648
+def «translatedTraceServiceRequest.ProtoMessage» : Nat := 649
+def «translatedTraceServiceRequest.Reset» : Nat := 650
+def «translatedTraceServiceRequest.String» : Nat := 651
+def «translatedTraceServiceRequest.Unmarshal» : Nat := 652
+def «tryConvertToFloat» : Nat := 653
+def «tryConvertToInt» : Nat := 654
+def «unmarshal» : Nat := 655
+def «unmarshalStressReliefMessage» : Nat := 656
+def «validateConfigs» : Nat := 657
+def «validateDatatype» : Nat := 658
+def «validateRules» : Nat := 659
+def «writeYAMLToFile» : Nat := 660
 end F
 
-def locNames : List String := ["InMemCollector.Config", "InMemCollector.Logger", "InMemCollector.Clock", "InMemCollector.Tracer", "InMemCollector.Health", "InMemCollector.Sharder", "InMemCollector.Transmission", "InMemCollector.PeerTransmission", "InMemCollector.PubSub", "InMemCollector.Metrics", "InMemCollector.SamplerFactory", "InMemCollector.StressRelief", "InMemCollector.Peers", "InMemCollector.TestMode", "InMemCollector.BlockOnAddSpan", "InMemCollector.workers", "InMemCollector.mutex", "InMemCollector.monitorWG", "InMemCollector.workersWG", "InMemCollector.sendTracesWG", "InMemCollector.reload", "InMemCollector.tracesToSend", "InMemCollector.done", "InMemCollector.hostname", "InMemCollector.memMetricSample", "CollectorWorker.ID", "CollectorWorker.parent", "CollectorWorker.incoming", "CollectorWorker.fromPeer", "CollectorWorker.sendEarly", "CollectorWorker.pause", "CollectorWorker.reload", "CollectorWorker.cache", "CollectorWorker.sampleCache", "CollectorWorker.datasetSamplers", "CollectorWorker.lastCacheSize", "CollectorWorker.localSpansWaiting", "CollectorWorker.localSpanReceived", "CollectorWorker.localSpanProcessed", "CollectorWorker.healthCheckInAt", "StressRelief.RefineryMetrics", "StressRelief.Config", "StressRelief.Logger", "StressRelief.Health", "StressRelief.PubSub", "StressRelief.Peer", "StressRelief.Clock", "StressRelief.Done", "StressRelief.mode", "StressRelief.hostID", "StressRelief.activateLevel", "StressRelief.deactivateLevel", "StressRelief.sampleRate", "StressRelief.upperBound", "StressRelief.overallStressLevel", "StressRelief.reason", "StressRelief.formula", "StressRelief.stressed", "StressRelief.stayOnUntil", "StressRelief.minDuration", "StressRelief.topic", "StressRelief.algorithms", "StressRelief.lock", "StressRelief.stressLevels", "StressRelief.disableStressLevelReport", "CuckooTraceChecker.current", "CuckooTraceChecker.current*", "CuckooTraceChecker.future", "CuckooTraceChecker.future*", "CuckooTraceChecker.mut", "CuckooTraceChecker.capacity", "CuckooTraceChecker.met", "CuckooTraceChecker.addch", "CuckooTraceChecker.done", "CuckooTraceChecker.shutdownWG", "cuckooSentCache.met", "cuckooSentCache.kept", "cuckooSentCache.dropped", "cuckooSentCache.recentDroppedIDs", "cuckooSentCache.cfg", "cuckooSentCache.done", "cuckooSentCache.shutdownWG", "cuckooSentCache.keptReasons", "Router.Config", "Router.Logger", "Router.Health", "Router.HTTPTransport", "Router.UpstreamTransmission", "Router.PeerTransmission", "Router.Sharder", "Router.Collector", "Router.Metrics", "Router.Tracer", "Router.versionStr", "Router.proxyClient", "Router.routerType", "Router.iopLogger", "Router.zstdDecoder", "Router.server", "Router.grpcServer", "Router.doneWG", "Router.donech", "Router.environmentCache", "Router.hsrv", "Router.metricsNames", "environmentCache.mutex", "environmentCache.items", "environmentCache.ttl", "environmentCache.getFn", "eventBatch.mutex", "eventBatch.events", "eventBatch.startTime", "DirectTransmission.Config", "DirectTransmission.Logger", "DirectTransmission.Version", "DirectTransmission.Metrics", "DirectTransmission.Transport", "DirectTransmission.Clock", "DirectTransmission.transmitType", "DirectTransmission.enableCompression", "DirectTransmission.maxBatchSize", "DirectTransmission.batchTimeout", "DirectTransmission.batchSendTimeout", "DirectTransmission.additionalHeaders", "DirectTransmission.eventBatches", "DirectTransmission.batchMutex", "DirectTransmission.dispatchPool", "DirectTransmission.stop", "DirectTransmission.stopWG", "DirectTransmission.httpClient", "DirectTransmission.userAgent", "DirectTransmission.metricKeys", "RedisPubsubPeers.Config", "RedisPubsubPeers.Metrics", "RedisPubsubPeers.Logger", "RedisPubsubPeers.PubSub", "RedisPubsubPeers.Clock", "RedisPubsubPeers.InstanceID", "RedisPubsubPeers.Done", "RedisPubsubPeers.peers", "RedisPubsubPeers.hash", "RedisPubsubPeers.callbacks", "RedisPubsubPeers.sub", "RedisPubsubPeers.topic", "fileConfig.mainConfig", "fileConfig.mainHash", "fileConfig.rulesConfig", "fileConfig.rulesHash", "fileConfig.opts", "fileConfig.callbacks", "fileConfig.mux", "fileConfig.lastLoadTime", "ConfigWatcher.Config", "ConfigWatcher.Logger", "ConfigWatcher.PubSub", "ConfigWatcher.Tracer", "ConfigWatcher.Clock", "ConfigWatcher.subscr", "ConfigWatcher.msgTime", "ConfigWatcher.done", "ConfigWatcher.mut", "ConfigWatcher.topic", "ConfigWatcher.Starter", "ConfigWatcher.Stopper", "MultiMetrics.Config", "MultiMetrics.PromMetrics", "MultiMetrics.OTelMetrics", "MultiMetrics.children", "MultiMetrics.counters", "MultiMetrics.gauges", "MultiMetrics.updowns", "MultiMetrics.stores", "MultiMetrics.metricTypes", "environmentCache.addItem()"]
+def locNames : List String := ["InMemCollector.Config", "InMemCollector.Logger", "InMemCollector.Clock", "InMemCollector.Tracer", "InMemCollector.Health", "InMemCollector.Sharder", "InMemCollector.Transmission", "InMemCollector.PeerTransmission", "InMemCollector.PubSub", "InMemCollector.Metrics", "InMemCollector.SamplerFactory", "InMemCollector.StressRelief", "InMemCollector.Peers", "InMemCollector.TestMode", "InMemCollector.BlockOnAddSpan", "InMemCollector.workers", "InMemCollector.mutex", "InMemCollector.monitorWG", "InMemCollector.workersWG", "InMemCollector.sendTracesWG", "InMemCollector.reload", "InMemCollector.tracesToSend", "InMemCollector.done", "InMemCollector.hostname", "InMemCollector.memMetricSample", "CollectorWorker.ID", "CollectorWorker.parent", "CollectorWorker.incoming", "CollectorWorker.fromPeer", "CollectorWorker.sendEarly", "CollectorWorker.pause", "CollectorWorker.reload", "CollectorWorker.cache", "CollectorWorker.sampleCache", "CollectorWorker.datasetSamplers", "CollectorWorker.lastCacheSize", "CollectorWorker.localSpansWaiting", "CollectorWorker.localSpanReceived", "CollectorWorker.localSpanProcessed", "CollectorWorker.healthCheckInAt", "StressRelief.RefineryMetrics", "StressRelief.Config", "StressRelief.Logger", "StressRelief.Health", "StressRelief.PubSub", "StressRelief.Peer", "StressRelief.Clock", "StressRelief.Done", "StressRelief.mode", "StressRelief.hostID", "StressRelief.activateLevel", "StressRelief.deactivateLevel", "StressRelief.sampleRate", "StressRelief.upperBound", "StressRelief.overallStressLevel", "StressRelief.reason", "StressRelief.formula", "StressRelief.stressed", "StressRelief.stayOnUntil", "StressRelief.minDuration", "StressRelief.topic", "StressRelief.algorithms", "StressRelief.lock", "StressRelief.stressLevels", "StressRelief.disableStressLevelReport", "CuckooTraceChecker.current", "CuckooTraceChecker.current*", "CuckooTraceChecker.future", "CuckooTraceChecker.future*", "CuckooTraceChecker.mut", "CuckooTraceChecker.capacity", "CuckooTraceChecker.met", "CuckooTraceChecker.addch", "CuckooTraceChecker.done", "CuckooTraceChecker.shutdownWG", "cuckooSentCache.met", "cuckooSentCache.kept", "cuckooSentCache.dropped", "cuckooSentCache.recentDroppedIDs", "cuckooSentCache.cfg", "cuckooSentCache.done", "cuckooSentCache.shutdownWG", "cuckooSentCache.keptReasons", "Router.Config", "Router.Logger", "Router.Health", "Router.HTTPTransport", "Router.UpstreamTransmission", "Router.PeerTransmission", "Router.Sharder", "Router.Collector", "Router.Metrics", "Router.Tracer", "Router.versionStr", "Router.proxyClient", "Router.routerType", "Router.iopLogger", "Router.zstdDecoder", "Router.server", "Router.grpcServer", "Router.doneWG", "Router.donech", "Router.environmentCache", "Router.hsrv", "Router.metricsNames", "environmentCache.mutex", "environmentCache.items", "environmentCache.ttl", "environmentCache.getFn", "eventBatch.mutex", "eventBatch.events", "eventBatch.startTime", "DirectTransmission.Config", "DirectTransmission.Logger", "DirectTransmission.Version", "DirectTransmission.Metrics", "DirectTransmission.Transport", "DirectTransmission.Clock", "DirectTransmission.transmitType", "DirectTransmission.enableCompression", "DirectTransmission.maxBatchSize", "DirectTransmission.batchTimeout", "DirectTransmission.batchSendTimeout", "DirectTransmission.additionalHeaders", "DirectTransmission.eventBatches", "DirectTransmission.batchMutex", "DirectTransmission.dispatchPool", "DirectTransmission.stop", "DirectTransmission.stopWG", "DirectTransmission.httpClient", "DirectTransmission.userAgent", "DirectTransmission.metricKeys", "RedisPubsubPeers.Config", "RedisPubsubPeers.Metrics", "RedisPubsubPeers.Logger", "RedisPubsubPeers.PubSub", "RedisPubsubPeers.Clock", "RedisPubsubPeers.InstanceID", "RedisPubsubPeers.Done", "RedisPubsubPeers.peers", "RedisPubsubPeers.hash", "RedisPubsubPeers.callbacks", "RedisPubsubPeers.sub", "RedisPubsubPeers.topic", "fileConfig.mainConfig", "fileConfig.mainHash", "fileConfig.rulesConfig", "fileConfig.rulesHash", "fileConfig.opts", "fileConfig.callbacks", "fileConfig.mux", "fileConfig.lastLoadTime", "ConfigWatcher.Config", "ConfigWatcher.Logger", "ConfigWatcher.PubSub", "ConfigWatcher.Tracer", "ConfigWatcher.Clock", "ConfigWatcher.subscr", "ConfigWatcher.msgTime", "ConfigWatcher.done", "ConfigWatcher.mut", "ConfigWatcher.topic", "ConfigWatcher.Starter", "ConfigWatcher.Stopper", "MultiMetrics.Config", "MultiMetrics.PromMetrics", "MultiMetrics.OTelMetrics", "MultiMetrics.children", "MultiMetrics.counters", "MultiMetrics.gauges", "MultiMetrics.updowns", "MultiMetrics.stores", "MultiMetrics.metricTypes", "SamplerFactory.Config", "SamplerFactory.Logger", "SamplerFactory.Metrics", "SamplerFactory.Peers", "SamplerFactory.peerCount", "SamplerFactory.mutex", "SamplerFactory.sharedDynsamplers", "SamplerFactory.goalThroughputConfigs", "environmentCache.addItem()"]
 
-def fnNames : List String := ["AccessKeyConfig.GetReplaceKey", "AccessKeyConfig.HasKeyIDs", "AccessKeyConfig.IsAccepted", "CmdEnv.ApplyTags", "CmdEnv.GetDelimiter", "CmdEnv.GetField", "CollectionConfig.GetIncomingQueueSizePerWorker", "CollectionConfig.GetMaxAlloc", "CollectionConfig.GetPeerQueueSizePerWorker", "CollectionConfig.GetWorkerCount", "CollectorWorker.GetCacheSize", "CollectorWorker.IsHealthy", "CollectorWorker.Stop", "CollectorWorker.addSpan", "CollectorWorker.addSpanFromPeer", "CollectorWorker.collect", "CollectorWorker.getLastSpanProcessed", "CollectorWorker.makeDecision", "CollectorWorker.processSpan", "CollectorWorker.processSpan$1", "CollectorWorker.sendExpiredTracesInCache", "CollectorWorker.sendExpiredTracesInCache$1", "CollectorWorker.sendTracesEarly", "CollectorWorker.sendTracesEarly$1", "ConfigHashMetrics", "ConfigWatcher.ReloadCallback", "ConfigWatcher.Start", "ConfigWatcher.Stop", "ConfigWatcher.SubscriptionListener", "ConfigWatcher.monitor", "ConvertBoolToFloat", "CuckooTraceChecker.Add", "CuckooTraceChecker.Check", "CuckooTraceChecker.Maintain", "CuckooTraceChecker.SetNextCapacity", "CuckooTraceChecker.Stop", "CuckooTraceChecker.drain", "DefaultInMemCache.Get", "DefaultInMemCache.GetAll", "DefaultInMemCache.GetCacheCapacity", "DefaultInMemCache.GetCacheEntryCount", "DefaultInMemCache.RemoveTraces", "DefaultInMemCache.Set", "DefaultInMemCache.TakeExpiredTraces", "DefaultTransmission.EnqueueEvent", "DefaultTransmission.EnqueueSpan", "DefaultTransmission.RegisterMetrics", "DefaultTransmission.Start", "DefaultTransmission.Start$1", "DefaultTransmission.Start$2", "DefaultTransmission.Stop", "DefaultTransmission.processResponses", "DefaultTransmission.reloadTransmissionBuilder", "DefaultTrue.Get", "DefaultTrue.MarshalText", "DefaultTrue.UnmarshalText", "Deprecation.GetDeprecationText", "Deprecation.GetLastVersion", "DeterministicSamplerConfig.GetSamplingFields", "DirectTransmission.EnqueueEvent", "DirectTransmission.EnqueueEvent$1", "DirectTransmission.EnqueueSpan", "DirectTransmission.Start", "DirectTransmission.Stop", "DirectTransmission.Stop$1", "DirectTransmission.dispatchStaleBatches", "DirectTransmission.dispatchStaleBatches$1", "DirectTransmission.handleBatchFailure", "DirectTransmission.handleError", "DirectTransmission.handleEventError", "DirectTransmission.registerMetrics", "DirectTransmission.sendBatch", "Duration.MarshalText", "Duration.UnmarshalText", "DynamicSamplerConfig.GetSamplingFields", "EMADynamicSamplerConfig.GetSamplingFields", "EMAThroughputSamplerConfig.GetSamplingFields", "FileConfigError.Error", "FileConfigError.HasErrors", "FilePeers.GetInstanceID", "FilePeers.GetPeers", "FilePeers.Ready", "FilePeers.RegisterUpdatedPeersCallback", "FilePeers.Start", "FilePeers.Start$1", "GetCollectorImplementation", "GetKeyFields", "GetMetricsImplementation", "Group.GetDeprecationVersion", "Group.IsDeprecated", "HoneycombLoggerConfig.GetSamplerEnabled", "InMemCollector.AddSpan", "InMemCollector.AddSpanFromPeer", "InMemCollector.GetStressedSampleRate", "InMemCollector.IsMyTrace", "InMemCollector.ProcessSpanImmediately", "InMemCollector.Start", "InMemCollector.Start$1", "InMemCollector.Stop", "InMemCollector.Stressed", "InMemCollector.addAdditionalAttributes", "InMemCollector.checkAlloc", "InMemCollector.dealWithSentTrace", "InMemCollector.getWorkerIDForTrace", "InMemCollector.isReady", "InMemCollector.monitor", "InMemCollector.reloadConfigs", "InMemCollector.send", "InMemCollector.sendReloadSignal", "InMemCollector.sendTraces", "IsLegacyAPIKey", "KeptReasonsCache.Get", "KeptReasonsCache.Set", "Level.MarshalText", "Level.String", "Level.UnmarshalText", "LoadConfigMetadata", "LoadRulesMetadata", "LogsServer.Export", "MemorySize.MarshalText", "MemorySize.UnmarshalFlag", "MemorySize.UnmarshalText", "Metadata.ClosestNamesTo", "Metadata.ClosestNamesTo$1", "Metadata.GetField", "Metadata.GetGroup", "Metadata.LoadFrom", "Metadata.Validate", "Metadata.ValidateRules", "MetricType.String", "MockCollector.AddSpan", "MockCollector.AddSpanFromPeer", "MockCollector.Flush", "MockCollector.GetStressedSampleRate", "MockCollector.ProcessSpanImmediately", "MockCollector.Stressed", "MockConfig.DetermineSamplerKey", "MockConfig.GetAccessKeyConfig", "MockConfig.GetAddCountsToRoot", "MockConfig.GetAddHostMetadataToTrace", "MockConfig.GetAddRuleReasonToTrace", "MockConfig.GetAddSpanCountToRoot", "MockConfig.GetAdditionalAttributes", "MockConfig.GetAdditionalErrorFields", "MockConfig.GetAdditionalHeaders", "MockConfig.GetAllSamplerRules", "MockConfig.GetCollectionConfig", "MockConfig.GetCollectorType", "MockConfig.GetCompressPeerCommunication", "MockConfig.GetConfigMetadata", "MockConfig.GetDatasetPrefix", "MockConfig.GetDebugServiceAddr", "MockConfig.GetEnvironmentCacheTTL", "MockConfig.GetGRPCConfig", "MockConfig.GetGRPCEnabled", "MockConfig.GetGRPCListenAddr", "MockConfig.GetGeneralConfig", "MockConfig.GetHTTPIdleTimeout", "MockConfig.GetHashes", "MockConfig.GetHealthCheckTimeout", "MockConfig.GetHoneycombAPI", "MockConfig.GetHoneycombLoggerConfig", "MockConfig.GetIdentifierInterfaceName", "MockConfig.GetIsDryRun", "MockConfig.GetListenAddr", "MockConfig.GetLoggerLevel", "MockConfig.GetLoggerType", "MockConfig.GetOTelMetricsConfig", "MockConfig.GetOTelTracingConfig", "MockConfig.GetOpAMPConfig", "MockConfig.GetParentIdFieldNames", "MockConfig.GetPeerListenAddr", "MockConfig.GetPeerManagementType", "MockConfig.GetPeerTimeout", "MockConfig.GetPeers", "MockConfig.GetPrometheusMetricsConfig", "MockConfig.GetQueryAuthToken", "MockConfig.GetRedisIdentifier", "MockConfig.GetRedisPeerManagement", "MockConfig.GetSampleCacheConfig", "MockConfig.GetSamplerConfigForDestName", "MockConfig.GetSamplingKeyFieldsForDestName", "MockConfig.GetStdoutLoggerConfig", "MockConfig.GetStressReliefConfig", "MockConfig.GetTraceIdFieldNames", "MockConfig.GetTracesConfig", "MockConfig.GetUseIPV6Identifier", "MockConfig.RegisterReloadCallback", "MockConfig.Reload", "MockConfig.SetMaxAlloc", "MockGRPCHealthWatchServer.GetSentMessages", "MockGRPCHealthWatchServer.Send", "MockMetrics.Count", "MockMetrics.Down", "MockMetrics.Gauge", "MockMetrics.Get", "MockMetrics.GetHistogramCount", "MockMetrics.Histogram", "MockMetrics.Increment", "MockMetrics.Register", "MockMetrics.Start", "MockMetrics.Stop", "MockMetrics.Store", "MockMetrics.Up", "MockPeers.GetInstanceID", "MockPeers.GetPeers", "MockPeers.Ready", "MockPeers.RegisterUpdatedPeersCallback", "MockPeers.Start", "MockPeers.UpdatePeers", "MockStressReliever.GetSampleRate", "MockStressReliever.Recalc", "MockStressReliever.ShouldSampleDeterministically", "MockStressReliever.Start", "MockStressReliever.Stressed", "MockStressReliever.UpdateFromConfig", "MockTransmission.EnqueueEvent", "MockTransmission.EnqueueSpan", "MockTransmission.GetBlock", "MockTransmission.RegisterMetrics", "MockTransmission.Start", "MockTransmission.Stop", "MultiMetrics.AddChild", "MultiMetrics.Children", "MultiMetrics.Count", "MultiMetrics.Down", "MultiMetrics.Gauge", "MultiMetrics.Get", "MultiMetrics.Histogram", "MultiMetrics.Increment", "MultiMetrics.Register", "MultiMetrics.Start", "MultiMetrics.Store", "MultiMetrics.Up", "NewCmdEnvOptions", "NewCollectorWorker", "NewConfig", "NewConfigData", "NewCuckooSentCache", "NewCuckooTraceChecker", "NewCuckooTraceChecker$1", "NewDefaultTransmission", "NewDirectTransmission", "NewInMemCache", "NewInMemCache$1", "NewInMemCache$2", "NewKeptReasonsCache", "NewKeptTraceCacheEntry", "NewLogsServer", "NewMockCollector", "NewMockPeers", "NewMultiMetrics", "NewTraceServer", "NullMetrics.Count", "NullMetrics.Down", "NullMetrics.Gauge", "NullMetrics.Get", "NullMetrics.Histogram", "NullMetrics.Increment", "NullMetrics.Register", "NullMetrics.Start", "NullMetrics.Stop", "NullMetrics.Store", "NullMetrics.Up", "OTelMetrics.Count", "OTelMetrics.Down", "OTelMetrics.Gauge", "OTelMetrics.Histogram", "OTelMetrics.Increment", "OTelMetrics.Register", "OTelMetrics.Start", "OTelMetrics.Start$1", "OTelMetrics.Start$2", "OTelMetrics.Start$3", "OTelMetrics.Start$4", "OTelMetrics.Stop", "OTelMetrics.Up", "OTelMetrics.getOrInitCounter", "OTelMetrics.getOrInitGauge", "OTelMetrics.getOrInitHistogram", "OTelMetrics.getOrInitUpDown", "ParseLevel", "PrefixMetricName", "PromMetrics.Count", "PromMetrics.Down", "PromMetrics.Gauge", "PromMetrics.Histogram", "PromMetrics.Increment", "PromMetrics.Register", "PromMetrics.Start", "PromMetrics.Start$1", "PromMetrics.Up", "RedisPubsubPeers.GetInstanceID", "RedisPubsubPeers.GetPeers", "RedisPubsubPeers.Ready", "RedisPubsubPeers.Ready$1", "RedisPubsubPeers.RegisterUpdatedPeersCallback", "RedisPubsubPeers.Start", "RedisPubsubPeers.checkHash", "RedisPubsubPeers.listen", "RedisPubsubPeers.stop", "Router.AddOTLPMuxxer", "Router.Check", "Router.LnS", "Router.LnS$1", "Router.SetEnvironmentCache", "Router.SetEnvironmentCache$1", "Router.SetType", "Router.SetVersion", "Router.Stop", "Router.Watch", "Router.alive", "Router.apiKeyProcessor", "Router.apiKeyProcessor$1", "Router.batch", "Router.debugTrace", "Router.event", "Router.getAllSamplerRules", "Router.getConfigMetadata", "Router.getEnvironmentName", "Router.getKeyID", "Router.getSamplerRules", "Router.handleOTLPFailureResponse", "Router.handlerReturnWithError", "Router.lookupEnvironment", "Router.marshalToFormat", "Router.panic", "Router.panicCatcher", "Router.panicCatcher$1", "Router.panicCatcher$2", "Router.postOTLPLogs", "Router.postOTLPTrace", "Router.processEvent", "Router.processOTLPRequest", "Router.processOTLPRequestBatchMsgp", "Router.processOTLPRequestWithMsgp", "Router.proxy", "Router.queryTokenChecker", "Router.queryTokenChecker$1", "Router.readAndCloseMaybeCompressedBody", "Router.readBodyToBuffer", "Router.readGzipBody", "Router.readUncompressedBody", "Router.readZstdBody", "Router.ready", "Router.registerMetricNames", "Router.requestLogger", "Router.requestLogger$1", "Router.requestToEvent", "Router.setResponseHeaders", "Router.setResponseHeaders$1", "Router.startGRPCHealthMonitor", "Router.startGRPCHealthMonitor$1", "Router.startGRPCHealthMonitor$2", "Router.version", "RulesBasedDownstreamSampler.GetSamplingFields", "RulesBasedDownstreamSampler.NameMeaningfulRate", "RulesBasedSamplerCondition.GetComputedField", "RulesBasedSamplerCondition.Init", "RulesBasedSamplerCondition.Init$1", "RulesBasedSamplerCondition.String", "RulesBasedSamplerCondition.setMatchesFunction", "RulesBasedSamplerCondition.setMatchesFunction$1", "RulesBasedSamplerCondition.setMatchesFunction$2", "RulesBasedSamplerConfig.GetSamplingFields", "RulesBasedSamplerConfig.String", "RulesBasedSamplerRule.String", "SampleCacheConfig.GetDroppedSizePerWorker", "SampleCacheConfig.GetKeptSizePerWorker", "SerializeToYAML", "StressRelief.GetSampleRate", "StressRelief.Recalc", "StressRelief.Start", "StressRelief.Start$1", "StressRelief.Start$2", "StressRelief.Stressed", "StressRelief.UpdateFromConfig", "StressRelief.clusterStressLevel", "StressRelief.linear", "StressRelief.onStressLevelUpdate", "StressRelief.ratio", "StressRelief.sigmoid", "StressRelief.sqrt", "StressRelief.square", "TotalThroughputSamplerConfig.GetSamplingFields", "TraceServer.ExportTraceData", "TracesConfig.GetBatchTimeout", "TracesConfig.GetMaxBatchSize", "TracesConfig.GetMaxExpiredTraces", "TracesConfig.GetSendDelay", "TracesConfig.GetSendTickerValue", "TracesConfig.GetTraceTimeout", "TryConvertToBool", "V2SamplerChoice.GetSamplingFields", "V2SamplerChoice.NameMeaningfulSamplers", "V2SamplerChoice.Sampler", "Validation.GetArgAsStringSlice", "ValidationResult.IsError", "ValidationResult.isEmpty", "ValidationResults.HasErrors", "WindowedThroughputSamplerConfig.GetSamplingFields", "WithConfigData", "WithConfigData$1", "WithRulesData", "WithRulesData$1", "addIncomingUserAgent", "applyCmdEnvTags", "applyConfigInto", "asFloat", "batchedEvent.MarshalMsg", "batchedEvent.UnmarshalMsg", "batchedEvent.getEventTime", "batchedEvent.getSampleRate", "batchedEvents.MarshalJSON", "batchedEvents.UnmarshalJSON", "batchedEvents.UnmarshalMsg", "batchedEvents.unmarshalBatchedEventFromFastJSON", "batchedEvents.unmarshalBatchedEventFromFastJSON$1", "batchedEvents.unmarshalBatchedEventFromFastJSON$2", "buildRequestURL", "checkForDeprecation", "clamp", "compareVersions", "convertToString", "cuckooDroppedRecord.Count", "cuckooDroppedRecord.DescendantCount", "cuckooDroppedRecord.Kept", "cuckooDroppedRecord.Rate", "cuckooDroppedRecord.Reason", "cuckooDroppedRecord.SpanCount", "cuckooDroppedRecord.SpanEventCount", "cuckooDroppedRecord.SpanLinkCount", "cuckooSentCache.CheckSpan", "cuckooSentCache.CheckTrace", "cuckooSentCache.Record", "cuckooSentCache.Resize", "cuckooSentCache.Stop", "cuckooSentCache.monitor", "customTraceExportHandler", "customTraceExportHandler$1", "envGetterFunc", "environmentCache.addItem", "environmentCache.get", "expandEnvVarsInConfig", "expandEnvVarsInString", "expandEnvVarsInString$1", "expandEnvVarsInValues", "fileConfig.DetermineSamplerKey", "fileConfig.GetAccessKeyConfig", "fileConfig.GetAddCountsToRoot", "fileConfig.GetAddHostMetadataToTrace", "fileConfig.GetAddRuleReasonToTrace", "fileConfig.GetAddSpanCountToRoot", "fileConfig.GetAdditionalAttributes", "fileConfig.GetAdditionalErrorFields", "fileConfig.GetAdditionalHeaders", "fileConfig.GetAllSamplerRules", "fileConfig.GetCollectionConfig", "fileConfig.GetCompressPeerCommunication", "fileConfig.GetConfigMetadata", "fileConfig.GetDatasetPrefix", "fileConfig.GetDebugServiceAddr", "fileConfig.GetEnvironmentCacheTTL", "fileConfig.GetGRPCConfig", "fileConfig.GetGRPCEnabled", "fileConfig.GetGRPCListenAddr", "fileConfig.GetGeneralConfig", "fileConfig.GetHTTPIdleTimeout", "fileConfig.GetHashes", "fileConfig.GetHealthCheckTimeout", "fileConfig.GetHoneycombAPI", "fileConfig.GetHoneycombLoggerConfig", "fileConfig.GetIdentifierInterfaceName", "fileConfig.GetIsDryRun", "fileConfig.GetListenAddr", "fileConfig.GetLoggerLevel", "fileConfig.GetLoggerType", "fileConfig.GetOTelMetricsConfig", "fileConfig.GetOTelTracingConfig", "fileConfig.GetOpAMPConfig", "fileConfig.GetParentIdFieldNames", "fileConfig.GetPeerListenAddr", "fileConfig.GetPeerManagementType", "fileConfig.GetPeerTimeout", "fileConfig.GetPeers", "fileConfig.GetPrometheusMetricsConfig", "fileConfig.GetQueryAuthToken", "fileConfig.GetRedisAuthCode", "fileConfig.GetRedisClusterHosts", "fileConfig.GetRedisDatabase", "fileConfig.GetRedisHost", "fileConfig.GetRedisIdentifier", "fileConfig.GetRedisPassword", "fileConfig.GetRedisPeerManagement", "fileConfig.GetRedisPrefix", "fileConfig.GetRedisUsername", "fileConfig.GetSampleCacheConfig", "fileConfig.GetSamplerConfigForDestName", "fileConfig.GetSamplingKeyFieldsForDestName", "fileConfig.GetStdoutLoggerConfig", "fileConfig.GetStressReliefConfig", "fileConfig.GetTraceIdFieldNames", "fileConfig.GetTracesConfig", "fileConfig.GetUseIPV6Identifier", "fileConfig.GetUseTLS", "fileConfig.GetUseTLSInsecure", "fileConfig.RegisterReloadCallback", "fileConfig.Reload", "flatten", "formatFromFilename", "formatFromResponse", "getAPIKeyAndDatasetFromMetadata", "getBytesFor", "getConfigDataForLocations", "getDatasetFromRequest", "getDefaultTrueValue", "getEventTime", "getFirstValueFromMetadata", "getIdentifierFromInterface", "getPeerManagementConfig", "getRefineryTelemetryConfig", "getUserAgentFromRequest", "hashList", "init", "iopLogger.Debug", "iopLogger.Error", "iopLogger.Info", "isString", "isVersionDeprecated", "keptTraceCacheEntry.Count", "keptTraceCacheEntry.DescendantCount", "keptTraceCacheEntry.Kept", "keptTraceCacheEntry.Rate", "keptTraceCacheEntry.SpanCount", "keptTraceCacheEntry.SpanEventCount", "keptTraceCacheEntry.SpanLinkCount", "load", "loadConfigsInto", "loadConfigsIntoMap", "loadNamedMetadata", "makeDecoders", "maskString", "mergeTraceAndSpanSampleRates", "mustFloat", "newBatchedEvents", "newConfigAndRules", "newEnvironmentCache", "newFileConfig", "newPeerCommand", "newStressReliefMessage", "parseFractionalEpoch", "peerCommand.marshal", "peerCommand.unmarshal", "populateConfigContents", "publicAddr", "randStringBytes", "recycleHTTPBodyBuffer", "registerCustomTraceService", "selectIPFromAddrs", "setCompareOperators", "setCompareOperators$1", "setCompareOperators$10", "setCompareOperators$11", "setCompareOperators$12", "setCompareOperators$13", "setCompareOperators$14", "setCompareOperators$15", "setCompareOperators$16", "setCompareOperators$17", "setCompareOperators$18", "setCompareOperators$19", "setCompareOperators$2", "setCompareOperators$20", "setCompareOperators$3", "setCompareOperators$4", "setCompareOperators$5", "setCompareOperators$6", "setCompareOperators$7", "setCompareOperators$8", "setCompareOperators$9", "setInBasedOperators", "setInBasedOperators$1", "setInBasedOperators$2", "setInBasedOperators$3", "setInBasedOperators$4", "setMatchStringBasedOperators", "setMatchStringBasedOperators$1", "setMatchStringBasedOperators$2", "setMatchStringBasedOperators$3", "setRegexStringMatchOperator", "setRegexStringMatchOperator$1", "statusRecorder.WriteHeader", "stressReliefMessage.String", "translatedTraceServiceRequest.ProtoMessage", "translatedTraceServiceRequest.Reset", "translatedTraceServiceRequest.String", "translatedTraceServiceRequest.Unmarshal", "tryConvertToFloat", "tryConvertToInt", "unmarshal", "unmarshalStressReliefMessage", "validateConfigs", "validateDatatype", "validateRules", "writeYAMLToFile"]
+def fnNames : List String := ["AccessKeyConfig.GetReplaceKey", "AccessKeyConfig.HasKeyIDs", "AccessKeyConfig.IsAccepted", "CmdEnv.ApplyTags", "CmdEnv.GetDelimiter", "CmdEnv.GetField", "CollectionConfig.GetIncomingQueueSizePerWorker", "CollectionConfig.GetMaxAlloc", "CollectionConfig.GetPeerQueueSizePerWorker", "CollectionConfig.GetWorkerCount", "CollectorWorker.GetCacheSize", "CollectorWorker.IsHealthy", "CollectorWorker.Stop", "CollectorWorker.addSpan", "CollectorWorker.addSpanFromPeer", "CollectorWorker.collect", "CollectorWorker.getLastSpanProcessed", "CollectorWorker.makeDecision", "CollectorWorker.processSpan", "CollectorWorker.processSpan$1", "CollectorWorker.sendExpiredTracesInCache", "CollectorWorker.sendExpiredTracesInCache$1", "CollectorWorker.sendTracesEarly", "CollectorWorker.sendTracesEarly$1", "ConfigHashMetrics", "ConfigWatcher.ReloadCallback", "ConfigWatcher.Start", "ConfigWatcher.Stop", "ConfigWatcher.SubscriptionListener", "ConfigWatcher.monitor", "ConvertBoolToFloat", "CuckooTraceChecker.Add", "CuckooTraceChecker.Check", "CuckooTraceChecker.Maintain", "CuckooTraceChecker.SetNextCapacity", "CuckooTraceChecker.Stop", "CuckooTraceChecker.drain", "DefaultInMemCache.Get", "DefaultInMemCache.GetAll", "DefaultInMemCache.GetCacheCapacity", "DefaultInMemCache.GetCacheEntryCount", "DefaultInMemCache.RemoveTraces", "DefaultInMemCache.Set", "DefaultInMemCache.TakeExpiredTraces", "DefaultTransmission.EnqueueEvent", "DefaultTransmission.EnqueueSpan", "DefaultTransmission.RegisterMetrics", "DefaultTransmission.Start", "DefaultTransmission.Start$1", "DefaultTransmission.Start$2", "DefaultTransmission.Stop", "DefaultTransmission.processResponses", "DefaultTransmission.reloadTransmissionBuilder", "DefaultTrue.Get", "DefaultTrue.MarshalText", "DefaultTrue.UnmarshalText", "Deprecation.GetDeprecationText", "Deprecation.GetLastVersion", "DeterministicSampler.GetKeyFields", "DeterministicSampler.GetSampleRate", "DeterministicSampler.Start", "DeterministicSampler.Start$1", "DeterministicSamplerConfig.GetSamplingFields", "DirectTransmission.EnqueueEvent", "DirectTransmission.EnqueueEvent$1", "DirectTransmission.EnqueueSpan", "DirectTransmission.Start", "DirectTransmission.Stop", "DirectTransmission.Stop$1", "DirectTransmission.dispatchStaleBatches", "DirectTransmission.dispatchStaleBatches$1", "DirectTransmission.handleBatchFailure", "DirectTransmission.handleError", "DirectTransmission.handleEventError", "DirectTransmission.registerMetrics", "DirectTransmission.sendBatch", "Duration.MarshalText", "Duration.UnmarshalText", "DynamicSampler.GetKeyFields", "DynamicSampler.GetSampleRate", "DynamicSampler.Start", "DynamicSampler.Start$1", "DynamicSamplerConfig.GetSamplingFields", "EMADynamicSampler.GetKeyFields", "EMADynamicSampler.GetSampleRate", "EMADynamicSampler.Start", "EMADynamicSampler.Start$1", "EMADynamicSamplerConfig.GetSamplingFields", "EMAThroughputSampler.GetKeyFields", "EMAThroughputSampler.GetSampleRate", "EMAThroughputSampler.Start", "EMAThroughputSampler.Start$1", "EMAThroughputSamplerConfig.GetSamplingFields", "FileConfigError.Error", "FileConfigError.HasErrors", "FilePeers.GetInstanceID", "FilePeers.GetPeers", "FilePeers.Ready", "FilePeers.RegisterUpdatedPeersCallback", "FilePeers.Start", "FilePeers.Start$1", "GetCollectorImplementation", "GetKeyFields", "GetMetricsImplementation", "Group.GetDeprecationVersion", "Group.IsDeprecated", "HoneycombLoggerConfig.GetSamplerEnabled", "InMemCollector.AddSpan", "InMemCollector.AddSpanFromPeer", "InMemCollector.GetStressedSampleRate", "InMemCollector.IsMyTrace", "InMemCollector.ProcessSpanImmediately", "InMemCollector.Start", "InMemCollector.Start$1", "InMemCollector.Stop", "InMemCollector.Stressed", "InMemCollector.addAdditionalAttributes", "InMemCollector.checkAlloc", "InMemCollector.dealWithSentTrace", "InMemCollector.getWorkerIDForTrace", "InMemCollector.isReady", "InMemCollector.monitor", "InMemCollector.reloadConfigs", "InMemCollector.send", "InMemCollector.sendReloadSignal", "InMemCollector.sendTraces", "IsLegacyAPIKey", "KeptReasonsCache.Get", "KeptReasonsCache.Set", "Level.MarshalText", "Level.String", "Level.UnmarshalText", "LoadConfigMetadata", "LoadRulesMetadata", "LogsServer.Export", "MemorySize.MarshalText", "MemorySize.UnmarshalFlag", "MemorySize.UnmarshalText", "Metadata.ClosestNamesTo", "Metadata.ClosestNamesTo$1", "Metadata.GetField", "Metadata.GetGroup", "Metadata.LoadFrom", "Metadata.Validate", "Metadata.ValidateRules", "MetricType.String", "MockCollector.AddSpan", "MockCollector.AddSpanFromPeer", "MockCollector.Flush", "MockCollector.GetStressedSampleRate", "MockCollector.ProcessSpanImmediately", "MockCollector.Stressed", "MockConfig.DetermineSamplerKey", "MockConfig.GetAccessKeyConfig", "MockConfig.GetAddCountsToRoot", "MockConfig.GetAddHostMetadataToTrace", "MockConfig.GetAddRuleReasonToTrace", "MockConfig.GetAddSpanCountToRoot", "MockConfig.GetAdditionalAttributes", "MockConfig.GetAdditionalErrorFields", "MockConfig.GetAdditionalHeaders", "MockConfig.GetAllSamplerRules", "MockConfig.GetCollectionConfig", "MockConfig.GetCollectorType", "MockConfig.GetCompressPeerCommunication", "MockConfig.GetConfigMetadata", "MockConfig.GetDatasetPrefix", "MockConfig.GetDebugServiceAddr", "MockConfig.GetEnvironmentCacheTTL", "MockConfig.GetGRPCConfig", "MockConfig.GetGRPCEnabled", "MockConfig.GetGRPCListenAddr", "MockConfig.GetGeneralConfig", "MockConfig.GetHTTPIdleTimeout", "MockConfig.GetHashes", "MockConfig.GetHealthCheckTimeout", "MockConfig.GetHoneycombAPI", "MockConfig.GetHoneycombLoggerConfig", "MockConfig.GetIdentifierInterfaceName", "MockConfig.GetIsDryRun", "MockConfig.GetListenAddr", "MockConfig.GetLoggerLevel", "MockConfig.GetLoggerType", "MockConfig.GetOTelMetricsConfig", "MockConfig.GetOTelTracingConfig", "MockConfig.GetOpAMPConfig", "MockConfig.GetParentIdFieldNames", "MockConfig.GetPeerListenAddr", "MockConfig.GetPeerManagementType", "MockConfig.GetPeerTimeout", "MockConfig.GetPeers", "MockConfig.GetPrometheusMetricsConfig", "MockConfig.GetQueryAuthToken", "MockConfig.GetRedisIdentifier", "MockConfig.GetRedisPeerManagement", "MockConfig.GetSampleCacheConfig", "MockConfig.GetSamplerConfigForDestName", "MockConfig.GetSamplingKeyFieldsForDestName", "MockConfig.GetStdoutLoggerConfig", "MockConfig.GetStressReliefConfig", "MockConfig.GetTraceIdFieldNames", "MockConfig.GetTracesConfig", "MockConfig.GetUseIPV6Identifier", "MockConfig.RegisterReloadCallback", "MockConfig.Reload", "MockConfig.SetMaxAlloc", "MockGRPCHealthWatchServer.GetSentMessages", "MockGRPCHealthWatchServer.Send", "MockMetrics.Count", "MockMetrics.Down", "MockMetrics.Gauge", "MockMetrics.Get", "MockMetrics.GetHistogramCount", "MockMetrics.Histogram", "MockMetrics.Increment", "MockMetrics.Register", "MockMetrics.Start", "MockMetrics.Stop", "MockMetrics.Store", "MockMetrics.Up", "MockPeers.GetInstanceID", "MockPeers.GetPeers", "MockPeers.Ready", "MockPeers.RegisterUpdatedPeersCallback", "MockPeers.Start", "MockPeers.UpdatePeers", "MockStressReliever.GetSampleRate", "MockStressReliever.Recalc", "MockStressReliever.ShouldSampleDeterministically", "MockStressReliever.Start", "MockStressReliever.Stressed", "MockStressReliever.UpdateFromConfig", "MockTransmission.EnqueueEvent", "MockTransmission.EnqueueSpan", "MockTransmission.GetBlock", "MockTransmission.RegisterMetrics", "MockTransmission.Start", "MockTransmission.Stop", "MultiMetrics.AddChild", "MultiMetrics.Children", "MultiMetrics.Count", "MultiMetrics.Down", "MultiMetrics.Gauge", "MultiMetrics.Get", "MultiMetrics.Histogram", "MultiMetrics.Increment", "MultiMetrics.Register", "MultiMetrics.Start", "MultiMetrics.Store", "MultiMetrics.Up", "NewCmdEnvOptions", "NewCollectorWorker", "NewConfig", "NewConfigData", "NewCuckooSentCache", "NewCuckooTraceChecker", "NewCuckooTraceChecker$1", "NewDefaultTransmission", "NewDirectTransmission", "NewInMemCache", "NewInMemCache$1", "NewInMemCache$2", "NewKeptReasonsCache", "NewKeptTraceCacheEntry", "NewLogsServer", "NewMockCollector", "NewMockPeers", "NewMultiMetrics", "NewTraceServer", "NullMetrics.Count", "NullMetrics.Down", "NullMetrics.Gauge", "NullMetrics.Get", "NullMetrics.Histogram", "NullMetrics.Increment", "NullMetrics.Register", "NullMetrics.Start", "NullMetrics.Stop", "NullMetrics.Store", "NullMetrics.Up", "OTelMetrics.Count", "OTelMetrics.Down", "OTelMetrics.Gauge", "OTelMetrics.Histogram", "OTelMetrics.Increment", "OTelMetrics.Register", "OTelMetrics.Start", "OTelMetrics.Start$1", "OTelMetrics.Start$2", "OTelMetrics.Start$3", "OTelMetrics.Start$4", "OTelMetrics.Stop", "OTelMetrics.Up", "OTelMetrics.getOrInitCounter", "OTelMetrics.getOrInitGauge", "OTelMetrics.getOrInitHistogram", "OTelMetrics.getOrInitUpDown", "ParseLevel", "PrefixMetricName", "PromMetrics.Count", "PromMetrics.Down", "PromMetrics.Gauge", "PromMetrics.Histogram", "PromMetrics.Increment", "PromMetrics.Register", "PromMetrics.Start", "PromMetrics.Start$1", "PromMetrics.Up", "RedisPubsubPeers.GetInstanceID", "RedisPubsubPeers.GetPeers", "RedisPubsubPeers.Ready", "RedisPubsubPeers.Ready$1", "RedisPubsubPeers.RegisterUpdatedPeersCallback", "RedisPubsubPeers.Start", "RedisPubsubPeers.checkHash", "RedisPubsubPeers.listen", "RedisPubsubPeers.stop", "Router.AddOTLPMuxxer", "Router.Check", "Router.LnS", "Router.LnS$1", "Router.SetEnvironmentCache", "Router.SetEnvironmentCache$1", "Router.SetType", "Router.SetVersion", "Router.Stop", "Router.Watch", "Router.alive", "Router.apiKeyProcessor", "Router.apiKeyProcessor$1", "Router.batch", "Router.debugTrace", "Router.event", "Router.getAllSamplerRules", "Router.getConfigMetadata", "Router.getEnvironmentName", "Router.getKeyID", "Router.getSamplerRules", "Router.handleOTLPFailureResponse", "Router.handlerReturnWithError", "Router.lookupEnvironment", "Router.marshalToFormat", "Router.panic", "Router.panicCatcher", "Router.panicCatcher$1", "Router.panicCatcher$2", "Router.postOTLPLogs", "Router.postOTLPTrace", "Router.processEvent", "Router.processOTLPRequest", "Router.processOTLPRequestBatchMsgp", "Router.processOTLPRequestWithMsgp", "Router.proxy", "Router.queryTokenChecker", "Router.queryTokenChecker$1", "Router.readAndCloseMaybeCompressedBody", "Router.readBodyToBuffer", "Router.readGzipBody", "Router.readUncompressedBody", "Router.readZstdBody", "Router.ready", "Router.registerMetricNames", "Router.requestLogger", "Router.requestLogger$1", "Router.requestToEvent", "Router.setResponseHeaders", "Router.setResponseHeaders$1", "Router.startGRPCHealthMonitor", "Router.startGRPCHealthMonitor$1", "Router.startGRPCHealthMonitor$2", "Router.version", "RulesBasedDownstreamSampler.GetSamplingFields", "RulesBasedDownstreamSampler.NameMeaningfulRate", "RulesBasedSampler.GetKeyFields", "RulesBasedSampler.GetSampleRate", "RulesBasedSampler.Start", "RulesBasedSampler.Start$1", "RulesBasedSamplerCondition.GetComputedField", "RulesBasedSamplerCondition.Init", "RulesBasedSamplerCondition.Init$1", "RulesBasedSamplerCondition.String", "RulesBasedSamplerCondition.setMatchesFunction", "RulesBasedSamplerCondition.setMatchesFunction$1", "RulesBasedSamplerCondition.setMatchesFunction$2", "RulesBasedSamplerConfig.GetSamplingFields", "RulesBasedSamplerConfig.String", "RulesBasedSamplerRule.String", "SampleCacheConfig.GetDroppedSizePerWorker", "SampleCacheConfig.GetKeptSizePerWorker", "SamplerFactory.ClearDynsamplers", "SamplerFactory.GetDownstreamSampler", "SamplerFactory.GetSamplerImplementationForKey", "SamplerFactory.Start", "SamplerFactory.Stop", "SamplerFactory.createSampler", "SamplerFactory.updatePeerCounts", "SerializeToYAML", "StressRelief.GetSampleRate", "StressRelief.Recalc", "StressRelief.Start", "StressRelief.Start$1", "StressRelief.Start$2", "StressRelief.Stressed", "StressRelief.UpdateFromConfig", "StressRelief.clusterStressLevel", "StressRelief.linear", "StressRelief.onStressLevelUpdate", "StressRelief.ratio", "StressRelief.sigmoid", "StressRelief.sqrt", "StressRelief.square", "TotalThroughputSampler.GetKeyFields", "TotalThroughputSampler.GetSampleRate", "TotalThroughputSampler.Start", "TotalThroughputSampler.Start$1", "TotalThroughputSamplerConfig.GetSamplingFields", "TraceServer.ExportTraceData", "TracesConfig.GetBatchTimeout", "TracesConfig.GetMaxBatchSize", "TracesConfig.GetMaxExpiredTraces", "TracesConfig.GetSendDelay", "TracesConfig.GetSendTickerValue", "TracesConfig.GetTraceTimeout", "TryConvertToBool", "V2SamplerChoice.GetSamplingFields", "V2SamplerChoice.NameMeaningfulSamplers", "V2SamplerChoice.Sampler", "Validation.GetArgAsStringSlice", "ValidationResult.IsError", "ValidationResult.isEmpty", "ValidationResults.HasErrors", "WindowedThroughputSampler.GetKeyFields", "WindowedThroughputSampler.GetSampleRate", "WindowedThroughputSampler.Start", "WindowedThroughputSampler.Start$1", "WindowedThroughputSamplerConfig.GetSamplingFields", "WithConfigData", "WithConfigData$1", "WithRulesData", "WithRulesData$1", "addIncomingUserAgent", "applyCmdEnvTags", "applyConfigInto", "asFloat", "batchedEvent.MarshalMsg", "batchedEvent.UnmarshalMsg", "batchedEvent.getEventTime", "batchedEvent.getSampleRate", "batchedEvents.MarshalJSON", "batchedEvents.UnmarshalJSON", "batchedEvents.UnmarshalMsg", "batchedEvents.unmarshalBatchedEventFromFastJSON", "batchedEvents.unmarshalBatchedEventFromFastJSON$1", "batchedEvents.unmarshalBatchedEventFromFastJSON$2", "buildRequestURL", "checkForDeprecation", "clamp", "compare", "compareVersions", "conditionMatchesValue", "convertToString", "createDynForDynamicSampler", "createDynForEMADynamicSampler", "createDynForEMAThroughputSampler", "createDynForTotalThroughputSampler", "createDynForWindowedThroughputSampler", "cuckooDroppedRecord.Count", "cuckooDroppedRecord.DescendantCount", "cuckooDroppedRecord.Kept", "cuckooDroppedRecord.Rate", "cuckooDroppedRecord.Reason", "cuckooDroppedRecord.SpanCount", "cuckooDroppedRecord.SpanEventCount", "cuckooDroppedRecord.SpanLinkCount", "cuckooSentCache.CheckSpan", "cuckooSentCache.CheckTrace", "cuckooSentCache.Record", "cuckooSentCache.Resize", "cuckooSentCache.Stop", "cuckooSentCache.monitor", "customTraceExportHandler", "customTraceExportHandler$1", "distinctValue.AddAsString", "distinctValue.Reset", "distinctValue.Values", "dynsamplerMetricsRecorder.RecordMetrics", "dynsamplerMetricsRecorder.RegisterMetrics", "envGetterFunc", "environmentCache.addItem", "environmentCache.get", "expandEnvVarsInConfig", "expandEnvVarsInString", "expandEnvVarsInString$1", "expandEnvVarsInValues", "extractValueFromSpan", "fileConfig.DetermineSamplerKey", "fileConfig.GetAccessKeyConfig", "fileConfig.GetAddCountsToRoot", "fileConfig.GetAddHostMetadataToTrace", "fileConfig.GetAddRuleReasonToTrace", "fileConfig.GetAddSpanCountToRoot", "fileConfig.GetAdditionalAttributes", "fileConfig.GetAdditionalErrorFields", "fileConfig.GetAdditionalHeaders", "fileConfig.GetAllSamplerRules", "fileConfig.GetCollectionConfig", "fileConfig.GetCompressPeerCommunication", "fileConfig.GetConfigMetadata", "fileConfig.GetDatasetPrefix", "fileConfig.GetDebugServiceAddr", "fileConfig.GetEnvironmentCacheTTL", "fileConfig.GetGRPCConfig", "fileConfig.GetGRPCEnabled", "fileConfig.GetGRPCListenAddr", "fileConfig.GetGeneralConfig", "fileConfig.GetHTTPIdleTimeout", "fileConfig.GetHashes", "fileConfig.GetHealthCheckTimeout", "fileConfig.GetHoneycombAPI", "fileConfig.GetHoneycombLoggerConfig", "fileConfig.GetIdentifierInterfaceName", "fileConfig.GetIsDryRun", "fileConfig.GetListenAddr", "fileConfig.GetLoggerLevel", "fileConfig.GetLoggerType", "fileConfig.GetOTelMetricsConfig", "fileConfig.GetOTelTracingConfig", "fileConfig.GetOpAMPConfig", "fileConfig.GetParentIdFieldNames", "fileConfig.GetPeerListenAddr", "fileConfig.GetPeerManagementType", "fileConfig.GetPeerTimeout", "fileConfig.GetPeers", "fileConfig.GetPrometheusMetricsConfig", "fileConfig.GetQueryAuthToken", "fileConfig.GetRedisAuthCode", "fileConfig.GetRedisClusterHosts", "fileConfig.GetRedisDatabase", "fileConfig.GetRedisHost", "fileConfig.GetRedisIdentifier", "fileConfig.GetRedisPassword", "fileConfig.GetRedisPeerManagement", "fileConfig.GetRedisPrefix", "fileConfig.GetRedisUsername", "fileConfig.GetSampleCacheConfig", "fileConfig.GetSamplerConfigForDestName", "fileConfig.GetSamplingKeyFieldsForDestName", "fileConfig.GetStdoutLoggerConfig", "fileConfig.GetStressReliefConfig", "fileConfig.GetTraceIdFieldNames", "fileConfig.GetTracesConfig", "fileConfig.GetUseIPV6Identifier", "fileConfig.GetUseTLS", "fileConfig.GetUseTLSInsecure", "fileConfig.RegisterReloadCallback", "fileConfig.Reload", "flatten", "formatFromFilename", "formatFromResponse", "getAPIKeyAndDatasetFromMetadata", "getBytesFor", "getConfigDataForLocations", "getDatasetFromRequest", "getDefaultTrueValue", "getEventTime", "getFirstValueFromMetadata", "getIdentifierFromInterface", "getMetricType", "getPeerManagementConfig", "getRefineryTelemetryConfig", "getSharedDynsamplerAndRecorder", "getUserAgentFromRequest", "hashList", "init", "iopLogger.Debug", "iopLogger.Error", "iopLogger.Info", "isString", "isVersionDeprecated", "keptTraceCacheEntry.Count", "keptTraceCacheEntry.DescendantCount", "keptTraceCacheEntry.Kept", "keptTraceCacheEntry.Rate", "keptTraceCacheEntry.SpanCount", "keptTraceCacheEntry.SpanEventCount", "keptTraceCacheEntry.SpanLinkCount", "load", "loadConfigsInto", "loadConfigsIntoMap", "loadNamedMetadata", "makeDecoders", "makeDynsamplerKey", "maskString", "mergeTraceAndSpanSampleRates", "mustFloat", "newBatchedEvents", "newConfigAndRules", "newEnvironmentCache", "newFileConfig", "newPeerCommand", "newSamplerMetricNames", "newStressReliefMessage", "newTraceKey", "parseFractionalEpoch", "peerCommand.marshal", "peerCommand.unmarshal", "populateConfigContents", "publicAddr", "randStringBytes", "recycleHTTPBodyBuffer", "registerCustomTraceService", "ruleMatchesSpanInTrace", "ruleMatchesTrace", "selectIPFromAddrs", "setCompareOperators", "setCompareOperators$1", "setCompareOperators$10", "setCompareOperators$11", "setCompareOperators$12", "setCompareOperators$13", "setCompareOperators$14", "setCompareOperators$15", "setCompareOperators$16", "setCompareOperators$17", "setCompareOperators$18", "setCompareOperators$19", "setCompareOperators$2", "setCompareOperators$20", "setCompareOperators$3", "setCompareOperators$4", "setCompareOperators$5", "setCompareOperators$6", "setCompareOperators$7", "setCompareOperators$8", "setCompareOperators$9", "setInBasedOperators", "setInBasedOperators$1", "setInBasedOperators$2", "setInBasedOperators$3", "setInBasedOperators$4", "setMatchStringBasedOperators", "setMatchStringBasedOperators$1", "setMatchStringBasedOperators$2", "setMatchStringBasedOperators$3", "setRegexStringMatchOperator", "setRegexStringMatchOperator$1", "statusRecorder.WriteHeader", "stressReliefMessage.String", "traceKey.build", "translatedTraceServiceRequest.ProtoMessage", "translatedTraceServiceRequest.Reset", "translatedTraceServiceRequest.String", "translatedTraceServiceRequest.Unmarshal", "tryConvertToFloat", "tryConvertToInt", "unmarshal", "unmarshalStressReliefMessage", "validateConfigs", "validateDatatype", "validateRules", "writeYAMLToFile"]
 
 def declaredFields : List Nat := [
   L.«InMemCollector.Config»,
@@ -970,7 +1034,15 @@ def declaredFields : List Nat := [
   L.«MultiMetrics.gauges»,
   L.«MultiMetrics.updowns»,
   L.«MultiMetrics.stores»,
-  L.«MultiMetrics.metricTypes»]
+  L.«MultiMetrics.metricTypes»,
+  L.«SamplerFactory.Config»,
+  L.«SamplerFactory.Logger»,
+  L.«SamplerFactory.Metrics»,
+  L.«SamplerFactory.Peers»,
+  L.«SamplerFactory.peerCount»,
+  L.«SamplerFactory.mutex»,
+  L.«SamplerFactory.sharedDynsamplers»,
+  L.«SamplerFactory.goalThroughputConfigs»]
 
 def accessFacts : List Fact := [
   ⟨L.«InMemCollector.Config», F.«CollectorWorker.collect», .read, [], false⟩,
@@ -1757,6 +1829,36 @@ def accessFacts : List Fact := [
   ⟨L.«MultiMetrics.stores», F.«MultiMetrics.Store», .atomic, [], false⟩,
   ⟨L.«MultiMetrics.metricTypes», F.«MultiMetrics.Get», .atomic, [], false⟩,
   ⟨L.«MultiMetrics.metricTypes», F.«MultiMetrics.Register», .atomic, [], false⟩,
+  ⟨L.«SamplerFactory.Config», F.«SamplerFactory.GetSamplerImplementationForKey», .read, [], false⟩,
+  ⟨L.«SamplerFactory.Logger», F.«SamplerFactory.GetDownstreamSampler», .read, [], false⟩,
+  ⟨L.«SamplerFactory.Logger», F.«SamplerFactory.createSampler», .read, [], false⟩,
+  ⟨L.«SamplerFactory.Metrics», F.«SamplerFactory.Start», .read, [], false⟩,
+  ⟨L.«SamplerFactory.Metrics», F.«SamplerFactory.createSampler», .read, [], false⟩,
+  ⟨L.«SamplerFactory.Metrics», F.«getSharedDynsamplerAndRecorder», .read, [(L.«SamplerFactory.mutex», .ex)], false⟩,
+  ⟨L.«SamplerFactory.Peers», F.«SamplerFactory.Start», .read, [], false⟩,
+  ⟨L.«SamplerFactory.Peers», F.«SamplerFactory.updatePeerCounts», .read, [(L.«SamplerFactory.mutex», .ex)], false⟩,
+  ⟨L.«SamplerFactory.peerCount», F.«SamplerFactory.Start», .write, [], false⟩,
+  ⟨L.«SamplerFactory.peerCount», F.«SamplerFactory.updatePeerCounts», .read, [(L.«SamplerFactory.mutex», .ex)], false⟩,
+  ⟨L.«SamplerFactory.peerCount», F.«SamplerFactory.updatePeerCounts», .write, [(L.«SamplerFactory.mutex», .ex)], false⟩,
+  ⟨L.«SamplerFactory.mutex», F.«SamplerFactory.ClearDynsamplers», .atomic, [(L.«SamplerFactory.mutex», .ex)], false⟩,
+  ⟨L.«SamplerFactory.mutex», F.«SamplerFactory.ClearDynsamplers», .atomic, [], false⟩,
+  ⟨L.«SamplerFactory.mutex», F.«SamplerFactory.createSampler», .atomic, [(L.«SamplerFactory.mutex», .ex)], false⟩,
+  ⟨L.«SamplerFactory.mutex», F.«SamplerFactory.createSampler», .atomic, [], false⟩,
+  ⟨L.«SamplerFactory.mutex», F.«SamplerFactory.updatePeerCounts», .atomic, [(L.«SamplerFactory.mutex», .ex)], false⟩,
+  ⟨L.«SamplerFactory.mutex», F.«SamplerFactory.updatePeerCounts», .atomic, [], false⟩,
+  ⟨L.«SamplerFactory.mutex», F.«getSharedDynsamplerAndRecorder», .atomic, [(L.«SamplerFactory.mutex», .ex)], false⟩,
+  ⟨L.«SamplerFactory.mutex», F.«getSharedDynsamplerAndRecorder», .atomic, [], false⟩,
+  ⟨L.«SamplerFactory.sharedDynsamplers», F.«SamplerFactory.ClearDynsamplers», .read, [(L.«SamplerFactory.mutex», .ex)], false⟩,
+  ⟨L.«SamplerFactory.sharedDynsamplers», F.«SamplerFactory.ClearDynsamplers», .write, [(L.«SamplerFactory.mutex», .ex)], false⟩,
+  ⟨L.«SamplerFactory.sharedDynsamplers», F.«SamplerFactory.Start», .write, [], false⟩,
+  ⟨L.«SamplerFactory.sharedDynsamplers», F.«SamplerFactory.createSampler», .read, [], false⟩,
+  ⟨L.«SamplerFactory.sharedDynsamplers», F.«SamplerFactory.updatePeerCounts», .read, [(L.«SamplerFactory.mutex», .ex)], false⟩,
+  ⟨L.«SamplerFactory.sharedDynsamplers», F.«getSharedDynsamplerAndRecorder», .read, [(L.«SamplerFactory.mutex», .ex)], false⟩,
+  ⟨L.«SamplerFactory.sharedDynsamplers», F.«getSharedDynsamplerAndRecorder», .write, [(L.«SamplerFactory.mutex», .ex)], false⟩,
+  ⟨L.«SamplerFactory.goalThroughputConfigs», F.«SamplerFactory.ClearDynsamplers», .write, [(L.«SamplerFactory.mutex», .ex)], false⟩,
+  ⟨L.«SamplerFactory.goalThroughputConfigs», F.«SamplerFactory.Start», .write, [], false⟩,
+  ⟨L.«SamplerFactory.goalThroughputConfigs», F.«SamplerFactory.createSampler», .write, [(L.«SamplerFactory.mutex», .ex)], false⟩,
+  ⟨L.«SamplerFactory.goalThroughputConfigs», F.«SamplerFactory.updatePeerCounts», .read, [(L.«SamplerFactory.mutex», .ex)], false⟩,
   ⟨L.«environmentCache.addItem()», F.«environmentCache.get», .write, [(L.«environmentCache.mutex», .ex)], false⟩]
 
 /-- selectors named like a tracked field whose base expression has a type the stub importer
